@@ -1,5 +1,10 @@
 /-
 Helper lemmas for C18 (model: `Model/Svcb.lean`, statement side: `Spec/Svcb.lean`).
+
+Sections: stable sort; the parsing loop (empty segments are skipped); per-key conformance of the
+emitted values (`conf_*`, `value_conformant`); `net.ParseIP` returns 16 bytes; whatever is accepted is
+a valid declaration (`decl_*`, `fromText_declared`); `decode_recovers_declared'`; the print → parse
+round trips of every value format (`rt_*`, `parseIP_fmtV6`, `param_roundtrip`, `text_roundtrip`).
 -/
 import DnsVerif.Spec.Svcb
 
@@ -75,7 +80,7 @@ theorem parseSegs_keys (segs : List Bytes) : ∀ (seen : List Nat) (ps : List Pa
     intro seen ps h
     unfold parseSegs at h
     by_cases he : s.isEmpty = true
-    · rw [if_pos he] at h; simp at h; subst h; simp
+    · rw [if_pos he] at h; exact ih _ _ h
     · rw [if_neg he] at h
       cases hp : paramFromText s with
       | error e => rw [hp] at h; simp at h
@@ -221,8 +226,9 @@ theorem u16s_flatMap (ks : List Nat) (h : ∀ k ∈ ks, k < 65536) : u16s (ks.fl
     congr 2
     omega
 
-/-- the segments the loop of `FromText` looks at: those before the first empty one -/
-def liveSegs (t : Bytes) : List Bytes := (splitOn 0x3b t).takeWhile (fun s => !s.isEmpty)
+/-- the segments the loop of `FromText` looks at: the non-empty ones (before /repo e9b4da5: those
+before the first empty one) -/
+def liveSegs (t : Bytes) : List Bytes := (splitOn 0x3b t).filter (fun s => !s.isEmpty)
 
 /-- segment-by-segment: each live segment parses to the parameter at the same position -/
 inductive Parsed : List Bytes → List Param → Prop
@@ -249,14 +255,17 @@ theorem Parsed.of_right {ss ps} (h : Parsed ss ps) {p} (hp : p ∈ ps) :
 
 theorem parseSegs_forall2 (segs : List Bytes) : ∀ (seen : List Nat) (ps : List Param),
     parseSegs seen segs = .ok ps →
-    Parsed (segs.takeWhile (fun s => !s.isEmpty)) ps := by
+    Parsed (segs.filter (fun s => !s.isEmpty)) ps := by
   induction segs with
   | nil => intro seen ps h; simp [parseSegs] at h; subst h; exact Parsed.nil
   | cons s rest ih =>
     intro seen ps h
     unfold parseSegs at h
     by_cases he : s.isEmpty = true
-    · rw [if_pos he] at h; simp at h; subst h; simp only [List.takeWhile, he]; exact Parsed.nil
+    · rw [if_pos he] at h
+      have : ¬ ((!s.isEmpty) = true) := by simp [he]
+      rw [List.filter_cons, if_neg this]
+      exact ih _ _ h
     · rw [if_neg he] at h
       cases hp : paramFromText s with
       | error e => simp [hp] at h
@@ -272,7 +281,7 @@ theorem parseSegs_forall2 (segs : List Bytes) : ∀ (seen : List Nat) (ps : List
             simp at h
             subst h
             have : (!s.isEmpty) = true := by simpa using he
-            simp only [List.takeWhile, this]
+            rw [List.filter_cons, if_pos this]
             exact Parsed.cons hp (ih _ _ hr)
 
 theorem pairwise_key_unique {ps : List Param} (h : ps.Pairwise fun x y => x.key ≠ y.key)
@@ -550,13 +559,36 @@ theorem splitOn_ne_nil (sep : UInt8) (b : Bytes) : splitOn sep b ≠ [] := by
       | nil => simp
       | cons x xs => simp
 
+theorem alpnLoop_ok (ids : List Bytes) : ∀ b, alpnLoop ids = .ok b →
+    (∀ a ∈ ids, 1 ≤ a.length ∧ a.length ≤ 255) ∧
+      b = ids.flatMap fun a => UInt8.ofNat a.length :: a := by
+  induction ids with
+  | nil => intro b h; simp [alpnLoop] at h; subst h; simp
+  | cons a rest ih =>
+    intro b h
+    unfold alpnLoop at h
+    by_cases hl : a.length = 0 ∨ a.length > 255
+    · rw [if_pos hl] at h; simp at h
+    · rw [if_neg hl] at h
+      cases hr : alpnLoop rest with
+      | error e => simp [hr] at h
+      | ok b' =>
+        simp only [hr] at h
+        simp at h
+        obtain ⟨h1, h2⟩ := ih _ hr
+        refine ⟨?_, by simp [← h, h2]⟩
+        intro x hx
+        rcases List.mem_cons.mp hx with rfl | hx
+        · omega
+        · exact h1 x hx
+
 theorem conf_alpn (w data : Bytes) (dv : Value) (hm : marshalValue 1 w = .ok data)
-    (hd : declValue 1 w = some dv) (hv : valid dv = true) :
+    (hd : declValue 1 w = some dv) :
     decodeValue 1 data = some dv ∧ dv.key = 1 := by
-  simp [marshalValue, alpnMarshaller] at hm
+  simp only [marshalValue, alpnMarshaller] at hm
+  obtain ⟨hv, hm⟩ := alpnLoop_ok _ _ hm
   simp [declValue] at hd
   subst hd hm
-  simp [valid] at hv
   have hne : splitOn 0x7c w ≠ [] := splitOn_ne_nil _ _
   have hlen : (splitOn 0x7c w).length ≤
       ((splitOn 0x7c w).flatMap fun a => UInt8.ofNat a.length :: a).length := by
@@ -564,7 +596,7 @@ theorem conf_alpn (w data : Bytes) (dv : Value) (hm : marshalValue 1 w = .ok dat
     induction l with
     | nil => simp
     | cons a as ih => simp at ih ⊢; omega
-  have := decodeAlpn_flatMap (splitOn 0x7c w) (fun a ha => hv.2 a ha) _ hlen
+  have := decodeAlpn_flatMap (splitOn 0x7c w) hv _ hlen
   simp only [decodeValue, this]
   simp [hne, Value.key]
 
@@ -703,7 +735,7 @@ theorem value_conformant {seg : Bytes} {p : Param} {dv : Value}
   generalize p.key = k at *
   match k, hle with
   | 0, _ => exact conf_mand _ _ _ hm hd hv
-  | 1, _ => exact conf_alpn _ _ _ hm hd hv
+  | 1, _ => exact conf_alpn _ _ _ hm hd
   | 2, _ => exact conf_nda _ _ _ hm hd
   | 3, _ => exact conf_port _ _ _ hm hd
   | 4, _ => exact conf_ipv4 _ _ _ hm hd hv
@@ -780,16 +812,377 @@ theorem toWire_length_ge (l : List Param) : l.length ≤ (toWire l).length := by
     simp only [paramToWire, u16be, List.length_append, List.length_cons, List.length_nil]
     omega
 
-/-- no parameter follows an empty `;` segment -/
-def NoDrop (t : Bytes) : Prop := (splitOn 0x3b t).filter (fun s => !s.isEmpty) = liveSegs t
+/-! ### `net.ParseIP` returns 16 bytes -/
 
-theorem decode_recovers_declared' {t : Bytes} {l : List Param} {d : List Value}
-    (h : fromText t = .ok l) (hn : NoDrop t) (hd : declared t = some d) (hf : Fits l) :
+theorem parseV4_length {s b} (h : parseV4 s = some b) : b.length = 4 := by
+  unfold parseV4 at h
+  split at h
+  · split at h
+    · simp at h; subst h; rfl
+    · simp at h
+  · simp at h
+
+theorem parseV6Loop_len : ∀ (fuel : Nat) (s out : Bytes) (ell : Option Nat) (r : Bytes × Option Nat × Bytes),
+    out.length % 2 = 0 → out.length ≤ 16 → parseV6Loop fuel s out ell = some r →
+    r.1.length % 2 = 0 ∧ r.1.length ≤ 16 := by
+  intro fuel
+  induction fuel with
+  | zero => intro s out ell r _ _ h; simp [parseV6Loop] at h
+  | succ fuel ih =>
+    intro s out ell r he hl h
+    unfold parseV6Loop at h
+    by_cases h16 : out.length ≥ 16
+    · rw [if_pos h16] at h; simp at h; subst h; exact ⟨he, hl⟩
+    · rw [if_neg h16] at h
+      simp only at h
+      have hlen2 : ∀ n, (out ++ u16be n).length % 2 = 0 ∧ (out ++ u16be n).length ≤ 16 := by
+        intro n; simp [u16be]; omega
+      split at h
+      · simp at h
+      · split at h
+        · simp at h
+        · split at h
+          · split at h
+            · simp at h
+            · split at h
+              · simp at h
+              · split at h
+                · simp at h
+                · rename_i four hf
+                  simp at h; subst h
+                  have := parseV4_length hf
+                  simp; omega
+          · split at h
+            · simp at h; subst h; exact hlen2 _
+            · split at h
+              · simp at h
+              · split at h
+                · simp at h
+                · split at h
+                  · split at h
+                    · simp at h
+                    · split at h
+                      · simp at h; subst h; exact hlen2 _
+                      · exact ih _ _ _ _ (hlen2 _).1 (hlen2 _).2 h
+                  · exact ih _ _ _ _ (hlen2 _).1 (hlen2 _).2 h
+
+theorem parseV6_tail {s' : Bytes} {ell' : Option Nat} {b : Bytes}
+    (h : (match parseV6Loop 10 s' [] ell' with
+      | none => none
+      | some (out, ell, rest) =>
+        if !rest.isEmpty then none
+        else if out.length < 16 then
+          match ell with
+          | none => none
+          | some e => some (out.take e ++ List.replicate (16 - out.length) 0 ++ out.drop e)
+        else if ell.isSome then none
+        else some out) = some b) : b.length = 16 := by
+  split at h
+  · simp at h
+  · rename_i out ell rest hloop
+    have := parseV6Loop_len _ _ _ _ _ (by simp) (by simp) hloop
+    simp only at this
+    split at h
+    · simp at h
+    · split at h
+      · split at h
+        · simp at h
+        · simp at h; subst h
+          simp; omega
+      · split at h
+        · simp at h
+        · simp at h; subst h; omega
+
+theorem parseV6_length {s b} (h : parseV6 s = some b) : b.length = 16 := by
+  unfold parseV6 at h
+  split at h
+  · simp at h
+  · simp only at h
+    by_cases hlead : (s.take 2 == [0x3a, 0x3a]) = true
+    · simp only [hlead, if_true, true_and] at h
+      split at h
+      · simp at h; subst h; simp
+      · exact parseV6_tail h
+    · simp only [hlead, Bool.false_eq_true, if_false, false_and] at h
+      exact parseV6_tail h
+
+theorem parseIP_length {s b} (h : parseIP s = some b) : b.length = 16 := by
+  unfold parseIP at h
+  split at h
+  · split at h
+    · simp at h
+      obtain ⟨a, ha, rfl⟩ := h
+      simp [v4prefix, parseV4_length ha]
+    · split at h
+      · exact parseV6_length h
+      · simp at h
+  · simp at h
+
+theorem to4_length {ip v} (h : to4 ip = some v) : v.length = 4 := by
+  unfold to4 at h
+  split at h
+  · simp at h; subst h; simp; omega
+  · simp at h
+
+/-! ### whatever the code accepts is a valid declaration -/
+
+theorem mapM'_of_map_some {α β} (f : α → Option β) (l : List α) (r : List β)
+    (h : l.map f = r.map some) : mapM' f l = some r := by
+  induction l generalizing r with
+  | nil => cases r <;> simp_all [mapM']
+  | cons a as ih =>
+    cases r with
+    | nil => simp at h
+    | cons b bs =>
+      simp at h
+      simp [mapM', h.1, ih bs h.2]
+
+theorem exists_map_some {α β} (f : α → Option β) (l : List α)
+    (h : ∀ a ∈ l, ∃ b, f a = some b) : ∃ r : List β, l.map f = r.map some := by
+  induction l with
+  | nil => exact ⟨[], rfl⟩
+  | cons a as ih =>
+    obtain ⟨b, hb⟩ := h a List.mem_cons_self
+    obtain ⟨r, hr⟩ := ih (fun x hx => h x (List.mem_cons_of_mem _ hx))
+    exact ⟨b :: r, by simp [hb, hr]⟩
+
+theorem nodupNat_of_nodup (l : List Nat) (h : l.Nodup) : nodupNat l = true := by
+  induction l with
+  | nil => rfl
+  | cons a as ih =>
+    obtain ⟨h1, h2⟩ := List.nodup_cons.mp h
+    simp [nodupNat, h1, ih h2]
+
+theorem decl_mand (w data : Bytes) (hm : marshalValue 0 w = .ok data) :
+    ∃ dv, declValue 0 w = some dv ∧ valid dv = true := by
+  simp only [marshalValue, mandatoryMarshaller] at hm
+  obtain ⟨ks, h1, _, h3, h4, _⟩ := mandatoryLoop_ok _ _ _ hm
+  have hperm := sortBy_perm (fun v => (keyOfName v).getD 0) (splitOn 0x7c w)
+  have hall : ∀ n ∈ splitOn 0x7c w, ∃ k, keyOfName n = some k := by
+    intro n hn
+    have : keyOfName n ∈ (sortBy (fun v => (keyOfName v).getD 0) (splitOn 0x7c w)).map keyOfName :=
+      List.mem_map.mpr ⟨n, hperm.mem_iff.mpr hn, rfl⟩
+    rw [h1] at this
+    obtain ⟨k, _, hk'⟩ := List.mem_map.mp this
+    exact ⟨k, hk'.symm⟩
+  obtain ⟨ks', hks'⟩ := exists_map_some _ _ hall
+  have e1 := map_getD_of_map_some _ _ hks'
+  have e2 := map_getD_of_map_some _ _ h1
+  have hks : ks = sortBy id ks' := by
+    rw [← e1, sortBy_map, ← e2]; rfl
+  refine ⟨.mandatory (sortBy id ks'), ?_, ?_⟩
+  · simp only [declValue, mapM'_of_map_some _ _ _ hks', Option.map_some]
+  · rw [← hks]
+    have hne : ks ≠ [] := by
+      intro h0
+      have := congrArg List.length h1
+      rw [h0] at this
+      simp at this
+      have hl := hperm.length_eq
+      rw [this] at hl
+      exact splitOn_ne_nil _ _ (List.length_eq_zero_iff.mp hl.symm)
+    simp [valid, hne, nodupNat_of_nodup _ h4, h3]
+
+theorem decl_alpn (w data : Bytes) (hm : marshalValue 1 w = .ok data) :
+    ∃ dv, declValue 1 w = some dv ∧ valid dv = true := by
+  simp only [marshalValue, alpnMarshaller] at hm
+  obtain ⟨hv, _⟩ := alpnLoop_ok _ _ hm
+  refine ⟨_, rfl, ?_⟩
+  simp only [valid, Bool.and_eq_true, List.all_eq_true, decide_eq_true_eq]
+  exact ⟨by simp [splitOn_ne_nil], fun a ha => by simpa using hv a ha⟩
+
+theorem decl_nda (w data : Bytes) (hm : marshalValue 2 w = .ok data) :
+    ∃ dv, declValue 2 w = some dv ∧ valid dv = true := by
+  simp only [marshalValue, nodefaultalpnMarshaller] at hm
+  by_cases hw : w.length > 0
+  · rw [if_pos hw] at hm; simp at hm
+  · have : w = [] := List.length_eq_zero_iff.mp (by omega)
+    subst this
+    exact ⟨.noDefaultAlpn, by simp [declValue], rfl⟩
+
+theorem parseUint16_lt {s : Bytes} {n : Nat} (hp : parseUint16 s = some n) : n < 65536 := by
+  unfold parseUint16 at hp
+  split at hp
+  · simp at hp
+  · split at hp
+    · simp only at hp
+      split at hp
+      · simp at hp; omega
+      · simp at hp
+    · simp at hp
+
+theorem decl_port (w data : Bytes) (hm : marshalValue 3 w = .ok data) :
+    ∃ dv, declValue 3 w = some dv ∧ valid dv = true := by
+  simp only [marshalValue, portMarshaller] at hm
+  cases hp : parseUint16 w with
+  | none => simp [hp] at hm
+  | some n =>
+    refine ⟨.port n, by simp [declValue, hp], ?_⟩
+    simp [valid, parseUint16_lt hp]
+
+theorem mapM'_length {α β} (f : α → Option β) (l : List α) (r : List β)
+    (h : mapM' f l = some r) : r.length = l.length := by
+  have := congrArg List.length (mapM'_some f l r h)
+  simpa using this.symm
+
+theorem mapM'_mem {α β} (f : α → Option β) (l : List α) (r : List β)
+    (h : mapM' f l = some r) {b : β} (hb : b ∈ r) : ∃ a ∈ l, f a = some b := by
+  have := mapM'_some f l r h
+  have hm : some b ∈ r.map some := List.mem_map.mpr ⟨b, hb, rfl⟩
+  rw [← this] at hm
+  obtain ⟨a, ha, hfa⟩ := List.mem_map.mp hm
+  exact ⟨a, ha, hfa⟩
+
+theorem decl_ipv4 (w data : Bytes) (hm : marshalValue 4 w = .ok data) :
+    ∃ dv, declValue 4 w = some dv ∧ valid dv = true := by
+  simp only [marshalValue, ipv4hintMarshaller] at hm
+  obtain ⟨addrs, h1, _⟩ := ipv4Loop_ok _ _ hm
+  refine ⟨.ipv4hint addrs, by simp [declValue, h1], ?_⟩
+  have hne : addrs ≠ [] := by
+    intro h0
+    have := mapM'_length _ _ _ h1
+    rw [h0] at this
+    exact splitOn_ne_nil _ _ (List.length_eq_zero_iff.mp this.symm)
+  simp only [valid, Bool.and_eq_true, List.all_eq_true, decide_eq_true_eq]
+  refine ⟨by simp [hne], ?_⟩
+  intro a ha
+  obtain ⟨x, _, hx⟩ := mapM'_mem _ _ _ h1 ha
+  cases hp : parseIP x with
+  | none => simp [hp] at hx
+  | some ip => simp [hp] at hx; exact to4_length hx
+
+theorem decl_ech (w data : Bytes) (hm : marshalValue 5 w = .ok data) :
+    ∃ dv, declValue 5 w = some dv ∧ valid dv = true := by
+  simp only [marshalValue, echMarshaller] at hm
+  cases hb : b64Decode w with
+  | none => simp [hb] at hm
+  | some b => exact ⟨.ech b, by simp [declValue, hb], rfl⟩
+
+theorem decl_ipv6 (w data : Bytes) (hm : marshalValue 6 w = .ok data) :
+    ∃ dv, declValue 6 w = some dv ∧ valid dv = true := by
+  simp only [marshalValue, ipv6hintMarshaller] at hm
+  obtain ⟨addrs, h1, _⟩ := ipv6Loop_ok _ _ hm
+  refine ⟨.ipv6hint addrs, by simp only [declValue, h1, Option.map_some], ?_⟩
+  have hne : addrs ≠ [] := by
+    intro h0
+    have := mapM'_length _ _ _ h1
+    rw [h0] at this
+    exact splitOn_ne_nil _ _ (List.length_eq_zero_iff.mp this.symm)
+  simp only [valid, Bool.and_eq_true, List.all_eq_true, decide_eq_true_eq]
+  refine ⟨by simp [hne], ?_⟩
+  intro a ha
+  obtain ⟨x, _, hx⟩ := mapM'_mem _ _ _ h1 ha
+  split at hx
+  · exact parseIP_length hx
+  · simp at hx
+
+/-- per parameter: an accepted segment is a valid declaration -/
+theorem value_declared {seg : Bytes} {p : Param} (hp : paramFromText seg = .ok p) :
+    ∃ dv, declSeg seg = some dv ∧ valid dv = true := by
+  obtain ⟨n, v, hc, hk, hm⟩ := paramFromText_ok hp
+  simp only [declSeg, hc, hk]
+  have hle := keyOfName_le hk
+  generalize p.key = k at *
+  match k, hle with
+  | 0, _ => exact decl_mand _ _ hm
+  | 1, _ => exact decl_alpn _ _ hm
+  | 2, _ => exact decl_nda _ _ hm
+  | 3, _ => exact decl_port _ _ hm
+  | 4, _ => exact decl_ipv4 _ _ hm
+  | 5, _ => exact decl_ech _ _ hm
+  | 6, _ => exact decl_ipv6 _ _ hm
+  | k + 7, h => omega
+
+theorem Parsed.declared {segs ps} (hp : Parsed segs ps) :
+    ∃ vs, mapM' declSeg segs = some vs ∧ ∀ v ∈ vs, valid v = true := by
+  induction hp with
+  | nil => exact ⟨[], rfl, by simp⟩
+  | @cons s p ss ps' h1 _ ih =>
+    obtain ⟨dv, hd, hv⟩ := value_declared h1
+    obtain ⟨vs, hm, hvs⟩ := ih
+    refine ⟨dv :: vs, by simp [mapM', hd, hm], ?_⟩
+    intro v hv'
+    rcases List.mem_cons.mp hv' with rfl | hv'
+    · exact hv
+    · exact hvs v hv'
+
+theorem Conf.keys {ps vs} (h : Conf ps vs) : vs.map Value.key = ps.map Param.key := by
+  induction h with
+  | nil => rfl
+  | cons _ b _ ih => simp [b, ih]
+
+theorem Conf.mem_right {ps vs} (h : Conf ps vs) {v} (hv : v ∈ vs) :
+    ∃ p ∈ ps, decodeValue p.key p.value = some v ∧ v.key = p.key := by
+  induction h with
+  | nil => simp at hv
+  | cons a b _ ih =>
+    rcases List.mem_cons.mp hv with rfl | hv
+    · exact ⟨_, List.mem_cons_self, a, b⟩
+    · obtain ⟨p, hp, h1, h2⟩ := ih hv; exact ⟨p, List.mem_cons_of_mem _ hp, h1, h2⟩
+
+theorem Conf.mem_left {ps vs} (h : Conf ps vs) {p} (hp : p ∈ ps) :
+    ∃ v ∈ vs, v.key = p.key := by
+  induction h with
+  | nil => simp at hp
+  | cons _ b _ ih =>
+    rcases List.mem_cons.mp hp with rfl | hp
+    · exact ⟨_, List.mem_cons_self, b⟩
+    · obtain ⟨v, hv, h1⟩ := ih hp; exact ⟨v, List.mem_cons_of_mem _ hv, h1⟩
+
+theorem decodeValue_mandatory {v : Bytes} {ks : List Nat}
+    (h : decodeValue 0 v = some (.mandatory ks)) : u16s v = some ks := by
+  simp only [decodeValue] at h
+  rw [← decodeKeys_eq_u16s]
+  cases hd : decodeKeys v with
+  | none => simp [hd] at h
+  | some ks' =>
+    simp only [hd] at h
+    split at h
+    · simp at h; rw [h]
+    · simp at h
+
+/-- Every accepted text is a valid declaration (`Spec.declared`). -/
+theorem fromText_declared {t : Bytes} {l : List Param} (h : fromText t = .ok l) :
+    ∃ d, declared t = some d := by
+  obtain ⟨ps, hp, hm, _⟩ := fromText_ok h
+  have hpar : Parsed (liveSegs t) ps := parseSegs_forall2 _ _ _ hp
+  have hd := (parseSegs_keys _ _ _ hp).1
+  obtain ⟨vs, hvs, hval⟩ := hpar.declared
+  have hconf : Conf ps vs := Conf.of_parsed hpar vs hvs hval
+  refine ⟨sortBy Value.key vs, ?_⟩
+  unfold declared
+  change (match mapM' declSeg (liveSegs t) with | none => none | some vs => _) = _
+  simp only [hvs]
+  rw [if_pos]
+  simp only [Bool.and_eq_true]
+  refine ⟨⟨List.all_eq_true.mpr hval, ?_⟩, ?_⟩
+  · apply nodupNat_of_nodup
+    rw [hconf.keys]
+    exact List.pairwise_map.mpr hd
+  · unfold mandatoryPresent
+    rw [List.all_eq_true]
+    intro v hv
+    cases v with
+    | mandatory ks =>
+      simp only [List.all_eq_true, List.any_eq_true, decide_eq_true_eq]
+      intro k hk
+      obtain ⟨p, hpm, h1, h2⟩ := hconf.mem_right hv
+      have hk0 : p.key = 0 := by rw [← h2]; rfl
+      rw [hk0] at h1
+      obtain ⟨q, hq, hqk⟩ := mandatoryCheck_ok hd hm hpm hk0 (decodeValue_mandatory h1) k hk
+      obtain ⟨x, hx, hxk⟩ := hconf.mem_left hq
+      exact ⟨x, hx, by rw [hxk, hqk]⟩
+    | _ => rfl
+
+/-- the RFC 9460 reader recovers the declaration from the emitted bytes -/
+theorem decode_recovers_of_declared {t : Bytes} {l : List Param} {d : List Value}
+    (h : fromText t = .ok l) (hd : declared t = some d) (hf : Fits l) :
     decodeRFC (toWire l) = some d := by
   obtain ⟨ps, hp, hm, hl⟩ := fromText_ok h
   have hpar : Parsed (liveSegs t) ps := parseSegs_forall2 _ _ _ hp
   unfold declared at hd
-  rw [hn] at hd
+  have hl' : (splitOn 0x3b t).filter (fun s => !s.isEmpty) = liveSegs t := rfl
+  rw [hl'] at hd
   cases hv : mapM' declSeg (liveSegs t) with
   | none => simp [hv] at hd
   | some vs =>
@@ -818,5 +1211,1517 @@ theorem decode_recovers_declared' {t : Bytes} {l : List Param} {d : List Value}
       simp only [hinc, Bool.not_true, Bool.false_eq_true, if_false, hconf.mapM]
       rw [if_pos (mandatoryPresent_perm (by rw [← hd]; exact sortBy_perm _ _) hmp)]
     · simp at hd
+
+theorem decode_recovers_declared' {t : Bytes} {l : List Param}
+    (h : fromText t = .ok l) (hf : Fits l) :
+    ∃ d, declared t = some d ∧ decodeRFC (toWire l) = some d := by
+  obtain ⟨d, hd⟩ := fromText_declared h
+  exact ⟨d, hd, decode_recovers_of_declared h hd hf⟩
+
+/-! ## print → parse round trips (for `text_wire_idempotent_partial`) -/
+
+
+/-! ### split / join / cut / trim -/
+
+theorem splitOn_nosep (sep : UInt8) (a : Bytes) (h : sep ∉ a) : splitOn sep a = [a] := by
+  induction a with
+  | nil => rfl
+  | cons c cs ih =>
+    have hc : c ≠ sep := fun e => h (e ▸ List.mem_cons_self)
+    have := ih (fun hm => h (List.mem_cons_of_mem _ hm))
+    unfold splitOn
+    rw [if_neg hc, this]
+
+theorem splitOn_append (sep : UInt8) (a rest : Bytes) (h : sep ∉ a) :
+    splitOn sep (a ++ sep :: rest) = a :: splitOn sep rest := by
+  induction a with
+  | nil => simp [splitOn]
+  | cons c cs ih =>
+    have hc : c ≠ sep := fun e => h (e ▸ List.mem_cons_self)
+    have := ih (fun hm => h (List.mem_cons_of_mem _ hm))
+    rw [List.cons_append, splitOn, if_neg hc, this]
+
+theorem intercalate_cons_cons (sep a : Bytes) (b : Bytes) (rest : List Bytes) :
+    intercalate sep (a :: b :: rest) = a ++ sep ++ intercalate sep (b :: rest) := rfl
+
+theorem splitOn_intercalate (sep : UInt8) (l : List Bytes) (hne : l ≠ [])
+    (h : ∀ a ∈ l, sep ∉ a) : splitOn sep (intercalate [sep] l) = l := by
+  induction l with
+  | nil => exact absurd rfl hne
+  | cons a as ih =>
+    cases as with
+    | nil => exact splitOn_nosep sep a (h a List.mem_cons_self)
+    | cons b bs =>
+      rw [intercalate_cons_cons, List.append_assoc, List.singleton_append,
+        splitOn_append sep a _ (h a List.mem_cons_self),
+        ih (by simp) (fun x hx => h x (List.mem_cons_of_mem _ hx))]
+
+theorem intercalate_head_cons (sep : Bytes) (c : UInt8) (h : Bytes) (t : List Bytes) :
+    intercalate sep ((c :: h) :: t) = c :: intercalate sep (h :: t) := by
+  cases t <;> rfl
+
+theorem intercalate_splitOn (sep : UInt8) (b : Bytes) : intercalate [sep] (splitOn sep b) = b := by
+  induction b with
+  | nil => rfl
+  | cons c cs ih =>
+    unfold splitOn
+    by_cases hc : c = sep
+    · rw [if_pos hc]
+      cases hs : splitOn sep cs with
+      | nil => exact absurd hs (splitOn_ne_nil _ _)
+      | cons x xs => rw [intercalate_cons_cons, ← hs, ih, hc]; rfl
+    · rw [if_neg hc]
+      cases hs : splitOn sep cs with
+      | nil => exact absurd hs (splitOn_ne_nil _ _)
+      | cons x xs =>
+        simp only
+        rw [intercalate_head_cons, ← hs, ih]
+
+theorem mem_intercalate {sep : Bytes} {l : List Bytes} {c : UInt8}
+    (h : c ∈ intercalate sep l) : c ∈ sep ∨ ∃ a ∈ l, c ∈ a := by
+  induction l with
+  | nil => simp [intercalate] at h
+  | cons a as ih =>
+    cases as with
+    | nil => exact Or.inr ⟨a, List.mem_cons_self, h⟩
+    | cons b bs =>
+      rw [intercalate_cons_cons] at h
+      rcases List.mem_append.mp h with h | h
+      · rcases List.mem_append.mp h with h | h
+        · exact Or.inr ⟨a, List.mem_cons_self, h⟩
+        · exact Or.inl h
+      · rcases ih h with h | ⟨x, hx, hc⟩
+        · exact Or.inl h
+        · exact Or.inr ⟨x, List.mem_cons_of_mem _ hx, hc⟩
+
+theorem cut_append (sep : UInt8) (a b : Bytes) (h : sep ∉ a) :
+    cut sep (a ++ sep :: b) = some (a, b) := by
+  induction a with
+  | nil => simp [cut]
+  | cons c cs ih =>
+    have hc : c ≠ sep := fun e => h (e ▸ List.mem_cons_self)
+    have := ih (fun hm => h (List.mem_cons_of_mem _ hm))
+    rw [List.cons_append]
+    unfold cut
+    rw [if_neg hc, this]
+
+theorem cut_mem {sep : UInt8} {s a b : Bytes} (h : cut sep s = some (a, b)) :
+    s = a ++ sep :: b := by
+  induction s generalizing a with
+  | nil => simp [cut] at h
+  | cons c cs ih =>
+    unfold cut at h
+    by_cases hc : c = sep
+    · rw [if_pos hc] at h; simp at h; obtain ⟨rfl, rfl⟩ := h; simp [hc]
+    · rw [if_neg hc] at h
+      cases hr : cut sep cs with
+      | none => simp [hr] at h
+      | some ab =>
+        obtain ⟨a', b'⟩ := ab
+        simp [hr] at h
+        obtain ⟨rfl, rfl⟩ := h
+        rw [ih hr]; rfl
+
+/-- no `"` at either end -/
+def Clean (s : Bytes) : Prop := s.head? ≠ some dquote ∧ s.getLast? ≠ some dquote
+
+theorem dropWhile_head {p : UInt8 → Bool} {s : Bytes} (h : ∀ c, s.head? = some c → p c = false) :
+    s.dropWhile p = s := by
+  cases s with
+  | nil => rfl
+  | cons c cs => simp [List.dropWhile, h c rfl]
+
+theorem trimQuotes_wrap {s : Bytes} (h : Clean s) : trimQuotes (dquote :: (s ++ [dquote])) = s := by
+  unfold trimQuotes
+  have h1 : (dquote :: (s ++ [dquote])).dropWhile (· == dquote) = (s ++ [dquote]).dropWhile (· == dquote) := by
+    simp [List.dropWhile]
+  rw [h1]
+  cases s with
+  | nil => simp [List.dropWhile]
+  | cons c cs =>
+    have hc : (c == dquote) = false := by
+      have := h.1; simp at this; simpa using this
+    have h2 : ((c :: cs) ++ [dquote]).dropWhile (· == dquote) = (c :: cs) ++ [dquote] := by
+      simp [hc]
+    rw [h2, List.reverse_append]
+    have h3 : ([dquote].reverse ++ (c :: cs).reverse).dropWhile (· == dquote) =
+        (c :: cs).reverse.dropWhile (· == dquote) := by simp
+    rw [h3, dropWhile_head, List.reverse_reverse]
+    intro x hx
+    have := h.2
+    rw [List.head?_reverse] at hx
+    rw [hx] at this
+    simp at this
+    simpa using this
+
+theorem dropWhile_head_not {p : UInt8 → Bool} (s : Bytes) :
+    ∀ c, (s.dropWhile p).head? = some c → p c = false := by
+  induction s with
+  | nil => simp
+  | cons a as ih =>
+    intro c hc
+    by_cases ha : p a = true
+    · simp [List.dropWhile, ha] at hc; exact ih c hc
+    · simp [List.dropWhile, ha] at hc; subst hc; simpa using ha
+
+theorem trimQuotes_clean (v : Bytes) : Clean (trimQuotes v) := by
+  unfold trimQuotes Clean
+  constructor
+  · -- head of the result = last of reversed-dropped; it is an element surviving the first dropWhile at head
+    intro hh
+    have hsplit := List.takeWhile_append_dropWhile (p := (· == dquote))
+      (l := (v.dropWhile (· == dquote)).reverse)
+    have hd : v.dropWhile (· == dquote) =
+        (((v.dropWhile (· == dquote)).reverse).dropWhile (· == dquote)).reverse ++
+        (((v.dropWhile (· == dquote)).reverse).takeWhile (· == dquote)).reverse := by
+      rw [← List.reverse_append, hsplit, List.reverse_reverse]
+    have hh' : (v.dropWhile (· == dquote)).head? = some dquote := by
+      rw [hd, List.head?_append, hh]; rfl
+    have := dropWhile_head_not (p := (· == dquote)) v dquote hh'
+    simp at this
+  · intro hl
+    rw [List.getLast?_reverse] at hl
+    have := dropWhile_head_not (p := (· == dquote)) ((v.dropWhile (· == dquote)).reverse) dquote hl
+    simp at this
+
+
+/-! ### decimal numbers -/
+
+
+theorem digit_toNat {c : Char} (h : c.isDigit = true) : 48 ≤ c.toNat ∧ c.toNat ≤ 57 := by
+  simp only [Char.isDigit, Bool.and_eq_true, decide_eq_true_eq] at h
+  obtain ⟨h1, h2⟩ := h
+  have h1 := UInt32.le_iff_toNat_le.mp h1
+  have h2 := UInt32.le_iff_toNat_le.mp h2
+  simp at h1 h2
+  exact ⟨h1, h2⟩
+
+def chr8 (c : Char) : UInt8 := UInt8.ofNat c.toNat
+
+theorem fmtDec_eq (n : Nat) : fmtDec n = (Nat.toDigits 10 n).map chr8 := rfl
+
+theorem chr8_digit {c : Char} (h : c.isDigit = true) : isDigit (chr8 c) = true ∧ (chr8 c).toNat = c.toNat := by
+  obtain ⟨h1, h2⟩ := digit_toNat h
+  have : (chr8 c).toNat = c.toNat := by
+    simp only [chr8, UInt8.toNat_ofNat']; omega
+  refine ⟨?_, this⟩
+  simp only [isDigit, this, Bool.and_eq_true, decide_eq_true_eq]
+  omega
+
+theorem fmtDec_digits (n : Nat) : ∀ c ∈ fmtDec n, isDigit c = true := by
+  intro c hc
+  rw [fmtDec_eq] at hc
+  obtain ⟨x, hx, rfl⟩ := List.mem_map.mp hc
+  exact (chr8_digit (Nat.isDigit_of_mem_toDigits (by decide) (by decide) hx)).1
+
+theorem fmtDec_ne_nil (n : Nat) : fmtDec n ≠ [] := by
+  rw [fmtDec_eq]
+  intro h
+  exact Nat.toDigits_ne_nil (List.map_eq_nil_iff.mp h)
+
+theorem decVal_map (l : List Char) (hl : ∀ c ∈ l, c.isDigit = true) (init : Nat) :
+    (l.map chr8).foldl (fun acc c => acc * 10 + (c.toNat - 0x30)) init = Nat.ofDigitChars 10 l init := by
+  induction l generalizing init with
+  | nil => rfl
+  | cons c cs ih =>
+    have := (chr8_digit (hl c List.mem_cons_self)).2
+    simp only [List.map_cons, List.foldl_cons, Nat.ofDigitChars_cons]
+    rw [ih (fun x hx => hl x (List.mem_cons_of_mem _ hx)), this, Nat.mul_comm]
+    rfl
+
+theorem decVal_fmtDec (n : Nat) : decVal (fmtDec n) = n := by
+  unfold decVal
+  rw [fmtDec_eq, decVal_map _ (fun c hc => Nat.isDigit_of_mem_toDigits (by decide) (by decide) hc)]
+  exact Nat.ofDigitChars_ten_toDigits
+
+theorem parseUint16_fmtDec (n : Nat) (h : n < 65536) : parseUint16 (fmtDec n) = some n := by
+  unfold parseUint16
+  have h1 : (fmtDec n).isEmpty = false := by
+    cases hf : fmtDec n with
+    | nil => exact absurd hf (fmtDec_ne_nil n)
+    | cons _ _ => rfl
+  have h2 : (fmtDec n).all isDigit = true := List.all_eq_true.mpr (fmtDec_digits n)
+  simp only [h1, h2, decVal_fmtDec, if_true, h]
+  simp
+
+
+
+
+/-! ### key names -/
+
+theorem nameOfKey_facts (k : Nat) (hk : k ≤ 6) :
+    keyOfName (nameOfKey k) = some k ∧ nameOfKey k ≠ [] ∧
+    ∀ c ∈ nameOfKey k, c ≠ 0x3d ∧ c ≠ 0x22 ∧ c ≠ 0x3b ∧ c ≠ 0x7c := by
+  match k, hk with
+  | 0, _ => decide
+  | 1, _ => decide
+  | 2, _ => decide
+  | 3, _ => decide
+  | 4, _ => decide
+  | 5, _ => decide
+  | 6, _ => decide
+  | k + 7, h => omega
+
+theorem clean_of_not_mem {s : Bytes} (h : dquote ∉ s) : Clean s := by
+  constructor
+  · intro hh
+    exact h (List.mem_of_mem_head? hh)
+  · intro hh
+    exact h (List.mem_of_getLast? hh)
+
+theorem sortBy_of_sorted {α} (k : α → Nat) (l : List α) (h : l.Pairwise fun x y => k x ≤ k y) :
+    sortBy k l = l := by
+  induction l with
+  | nil => rfl
+  | cons a as ih =>
+    obtain ⟨h1, h2⟩ := List.pairwise_cons.mp h
+    unfold sortBy
+    rw [ih h2]
+    cases as with
+    | nil => rfl
+    | cons b bs => unfold insertBy; rw [if_pos (h1 b List.mem_cons_self)]
+
+/-! ### mandatory -/
+
+theorem mandatoryLoop_complete (ks : List Nat) : ∀ seen, 0 ∉ ks → ks.Nodup → (∀ k ∈ ks, k ∉ seen) →
+    (∀ k ∈ ks, k ≤ 6) → mandatoryLoop (ks.map nameOfKey) seen = .ok (ks.flatMap u16be) := by
+  induction ks with
+  | nil => intros; rfl
+  | cons k ks ih =>
+    intro seen h0 hnd hs hle
+    have hk := (nameOfKey_facts k (hle k List.mem_cons_self)).1
+    obtain ⟨hn1, hn2⟩ := List.nodup_cons.mp hnd
+    have hk0 : k ≠ 0 := fun e => h0 (e ▸ List.mem_cons_self)
+    have hks : ¬ (seen.contains k = true) := by simpa using hs k List.mem_cons_self
+    have := ih (k :: seen) (fun hm => h0 (List.mem_cons_of_mem _ hm)) hn2
+      (by
+        intro x hx hmem
+        rcases List.mem_cons.mp hmem with rfl | hmem
+        · exact hn1 hx
+        · exact hs x (List.mem_cons_of_mem _ hx) hmem)
+      (fun x hx => hle x (List.mem_cons_of_mem _ hx))
+    simp only [List.map_cons, mandatoryLoop, hk]
+    rw [if_neg hk0, if_neg hks, this]
+    rfl
+
+theorem rt_mand (w data : Bytes) (hm : marshalValue 0 w = .ok data) :
+    ∃ s, unmarshalValue 0 data = some s ∧ marshalValue 0 s = .ok data ∧ 0x3b ∉ s ∧ dquote ∉ s := by
+  simp only [marshalValue, mandatoryMarshaller] at hm
+  obtain ⟨ks, h1, h2, h3, h4, _⟩ := mandatoryLoop_ok _ _ _ hm
+  have e2 := map_getD_of_map_some _ _ h1
+  have hle : ∀ k ∈ ks, k ≤ 6 := by
+    intro k hk
+    have : some k ∈ ks.map some := List.mem_map.mpr ⟨k, hk, rfl⟩
+    rw [← h1] at this
+    obtain ⟨n, _, hn⟩ := List.mem_map.mp this
+    exact keyOfName_le hn
+  have hsmall : ∀ k ∈ ks, k < 65536 := fun k hk => by have := hle k hk; omega
+  have hsorted : ks.Pairwise (· ≤ ·) := by
+    rw [← e2]
+    exact List.pairwise_map.mpr (sortBy_sorted _ _)
+  have hne : ks ≠ [] := by
+    intro h0
+    have := congrArg List.length h1
+    rw [h0] at this
+    simp at this
+    have hl := (sortBy_perm (fun v => (keyOfName v).getD 0) (splitOn 0x7c w)).length_eq
+    rw [this] at hl
+    exact splitOn_ne_nil _ _ (List.length_eq_zero_iff.mp hl.symm)
+  refine ⟨intercalate [0x7c] (ks.map nameOfKey), ?_, ?_, ?_, ?_⟩
+  · simp only [unmarshalValue, mandatoryUnmarshaller, h2, u16s_flatMap ks hsmall, Option.map_some]
+  · simp only [marshalValue, mandatoryMarshaller]
+    rw [splitOn_intercalate 0x7c _ (by simpa using hne)]
+    · rw [sortBy_of_sorted, mandatoryLoop_complete ks [] h3 h4 (by simp) hle, h2]
+      apply List.pairwise_map.mpr
+      refine hsorted.imp_of_mem ?_
+      intro a b ha hb hab
+      simp only [(nameOfKey_facts a (hle a ha)).1, (nameOfKey_facts b (hle b hb)).1, Option.getD_some]
+      exact hab
+    · intro a ha
+      obtain ⟨k, hk, rfl⟩ := List.mem_map.mp ha
+      intro hm'
+      exact ((nameOfKey_facts k (hle k hk)).2.2 _ hm').2.2.2 rfl
+  · intro hm'
+    rcases mem_intercalate hm' with h | ⟨a, ha, hc⟩
+    · simp at h
+    · obtain ⟨k, hk, rfl⟩ := List.mem_map.mp ha
+      exact ((nameOfKey_facts k (hle k hk)).2.2 _ hc).2.2.1 rfl
+  · intro hm'
+    rcases mem_intercalate hm' with h | ⟨a, ha, hc⟩
+    · simp [dquote] at h
+    · obtain ⟨k, hk, rfl⟩ := List.mem_map.mp ha
+      exact ((nameOfKey_facts k (hle k hk)).2.2 _ hc).2.1 rfl
+
+/-! ### alpn -/
+
+theorem alpnIds_flatMap (ids : List Bytes) (h : ∀ a ∈ ids, 1 ≤ a.length ∧ a.length ≤ 255) :
+    ∀ fuel, ids.length ≤ fuel →
+      alpnIds fuel (ids.flatMap fun a => UInt8.ofNat a.length :: a) = some ids := by
+  induction ids with
+  | nil => intro fuel _; cases fuel <;> simp [alpnIds]
+  | cons a as ih =>
+    intro fuel hf
+    cases fuel with
+    | zero => simp at hf
+    | succ fuel =>
+      obtain ⟨h1, h2⟩ := h a List.mem_cons_self
+      have ih' := ih (fun x hx => h x (List.mem_cons_of_mem _ hx)) fuel (by simpa using hf)
+      simp only [List.flatMap_cons, List.cons_append]
+      unfold alpnIds
+      have hl : (UInt8.ofNat a.length).toNat = a.length := by
+        simp only [UInt8.toNat_ofNat']; omega
+      rw [hl, if_neg (by simp)]
+      rw [List.take_left' rfl, List.drop_left' rfl, ih']; rfl
+
+theorem flatMap_len_ge (ids : List Bytes) :
+    ids.length ≤ (ids.flatMap fun a => UInt8.ofNat a.length :: a).length := by
+  induction ids with
+  | nil => simp
+  | cons a as ih => simp at ih ⊢; omega
+
+theorem rt_alpn (w data : Bytes) (hm : marshalValue 1 w = .ok data) :
+    unmarshalValue 1 data = some w := by
+  simp only [marshalValue, alpnMarshaller] at hm
+  obtain ⟨hv, hd⟩ := alpnLoop_ok _ _ hm
+  subst hd
+  simp only [unmarshalValue, alpnUnmarshaller]
+  rw [alpnIds_flatMap _ hv _ (flatMap_len_ge _)]
+  simp only [Option.map_some, intercalate_splitOn]
+
+/-! ### port -/
+
+theorem isDigit_ne {c : UInt8} (h : isDigit c = true) : c ≠ 0x3b ∧ c ≠ dquote ∧ c ≠ 0x7c ∧ c ≠ 0x2e := by
+  simp only [isDigit, Bool.and_eq_true, decide_eq_true_eq] at h
+  refine ⟨?_, ?_, ?_, ?_⟩ <;> (intro e; subst e; simp [dquote] at h)
+
+theorem rt_port (w data : Bytes) (hm : marshalValue 3 w = .ok data) :
+    ∃ s, unmarshalValue 3 data = some s ∧ marshalValue 3 s = .ok data ∧ 0x3b ∉ s ∧ dquote ∉ s := by
+  simp only [marshalValue, portMarshaller] at hm
+  cases hp : parseUint16 w with
+  | none => simp [hp] at hm
+  | some n =>
+    simp [hp] at hm
+    subst hm
+    have hn := parseUint16_lt hp
+    refine ⟨fmtDec n, ?_, ?_, ?_, ?_⟩
+    · simp only [unmarshalValue, portUnmarshaller, u16be, u16_dec n hn]
+    · simp only [marshalValue, portMarshaller, parseUint16_fmtDec n hn]
+    · intro h; exact (isDigit_ne (fmtDec_digits n _ h)).1 rfl
+    · intro h; exact (isDigit_ne (fmtDec_digits n _ h)).2.1 rfl
+
+
+
+/-! ### ipv4hint -/
+
+theorem chunks_eq_decodeAddrs (n : Nat) : ∀ fuel b, chunks n fuel b = decodeAddrs n fuel b := by
+  intro fuel
+  induction fuel with
+  | zero => intro b; cases b <;> rfl
+  | succ fuel ih =>
+    intro b
+    cases b with
+    | nil => rfl
+    | cons c cs => simp only [chunks, decodeAddrs, ih]
+
+def octetOK (n : Nat) : Bool :=
+  parseOctet (fmtDec n) == some (UInt8.ofNat n)
+
+theorem octet_all : (List.range 256).all octetOK = true := by decide +kernel
+
+theorem parseOctet_fmtDec (x : UInt8) : parseOctet (fmtDec x.toNat) = some x := by
+  have := List.all_eq_true.mp octet_all x.toNat (List.mem_range.mpr x.toNat_lt)
+  simp only [octetOK, beq_iff_eq] at this
+  rw [this, UInt8.ofNat_toNat]
+
+theorem find?_append_of {p : UInt8 → Bool} (d : Bytes) (x : UInt8) (r : Bytes)
+    (hd : ∀ c ∈ d, p c = false) (hx : p x = true) : (d ++ x :: r).find? p = some x := by
+  induction d with
+  | nil => simp [hx]
+  | cons c cs ih =>
+    simp only [List.cons_append, List.find?, hd c List.mem_cons_self]
+    exact ih (fun y hy => hd y (List.mem_cons_of_mem _ hy))
+
+theorem fmtV4_four (a b c d : UInt8) :
+    fmtV4 [a, b, c, d] = fmtDec a.toNat ++ 0x2e :: intercalate [0x2e] [fmtDec b.toNat, fmtDec c.toNat, fmtDec d.toNat] := by
+  simp [fmtV4, intercalate]
+
+theorem fmtDec_no (n : Nat) (x : UInt8) (hx : isDigit x = false) : x ∉ fmtDec n := by
+  intro h; rw [fmtDec_digits n x h] at hx; cases hx
+
+theorem parseIP_fmtV4 (a b c d : UInt8) : parseIP (fmtV4 [a, b, c, d]) = some (v4prefix ++ [a, b, c, d]) := by
+  have hfind : (fmtV4 [a, b, c, d]).find? (fun c => c == 0x2e || c == 0x3a || c == 0x25) = some 0x2e := by
+    rw [fmtV4_four]
+    apply find?_append_of
+    · intro x hx
+      have := fmtDec_digits _ x hx
+      simp only [isDigit, Bool.and_eq_true, decide_eq_true_eq] at this
+      have h1 : x ≠ 0x2e := by intro e; subst e; simp at this
+      have h2 : x ≠ 0x3a := by intro e; subst e; simp at this
+      have h3 : x ≠ 0x25 := by intro e; subst e; simp at this
+      simp [h1, h2, h3]
+    · rfl
+  have hsplit : splitOn 0x2e (fmtV4 [a, b, c, d]) =
+      [fmtDec a.toNat, fmtDec b.toNat, fmtDec c.toNat, fmtDec d.toNat] := by
+    have : fmtV4 [a, b, c, d] = intercalate [0x2e] [fmtDec a.toNat, fmtDec b.toNat, fmtDec c.toNat, fmtDec d.toNat] := by
+      simp [fmtV4]
+    rw [this, splitOn_intercalate _ _ (by simp)]
+    intro s hs
+    simp only [List.mem_cons, List.not_mem_nil, or_false] at hs
+    rcases hs with rfl | rfl | rfl | rfl <;> exact fmtDec_no _ _ (by decide)
+  unfold parseIP
+  rw [hfind]
+  simp only [if_true]
+  unfold parseV4
+  rw [hsplit]
+  simp only [parseOctet_fmtDec, Option.map_some]
+
+theorem to4_prefix (v : Bytes) (h : v.length = 4) : to4 (v4prefix ++ v) = some v := by
+  unfold to4
+  rw [if_pos]
+  · rw [List.drop_left' (by rfl)]
+  · exact ⟨by simp [v4prefix, h], List.take_left' (by rfl)⟩
+
+theorem len4 {v : Bytes} (h : v.length = 4) : ∃ a b c d, v = [a, b, c, d] := by
+  match v, h with
+  | [a, b, c, d], _ => exact ⟨a, b, c, d, rfl⟩
+
+theorem fmtV4_chars (v : Bytes) : ∀ c ∈ fmtV4 v, isDigit c = true ∨ c = 0x2e := by
+  intro c hc
+  unfold fmtV4 at hc
+  rcases mem_intercalate hc with h | ⟨s, hs, hcs⟩
+  · simp at h; exact Or.inr h
+  · obtain ⟨x, _, rfl⟩ := List.mem_map.mp hs
+    exact Or.inl (fmtDec_digits _ _ hcs)
+
+theorem ipv4Loop_complete (addrs : List Bytes) (h : ∀ a ∈ addrs, a.length = 4) :
+    ipv4Loop (addrs.map fmtV4) = .ok addrs.flatten := by
+  induction addrs with
+  | nil => rfl
+  | cons v vs ih =>
+    have hv := h v List.mem_cons_self
+    obtain ⟨a, b, c, d, rfl⟩ := len4 hv
+    simp only [List.map_cons, ipv4Loop, parseIP_fmtV4, to4_prefix _ hv,
+      ih (fun x hx => h x (List.mem_cons_of_mem _ hx))]
+    rfl
+
+theorem rt_ipv4 (w data : Bytes) (hm : marshalValue 4 w = .ok data) :
+    ∃ s, unmarshalValue 4 data = some s ∧ marshalValue 4 s = .ok data ∧ 0x3b ∉ s ∧ dquote ∉ s := by
+  obtain ⟨dv, hd, hv⟩ := decl_ipv4 w data hm
+  simp only [marshalValue, ipv4hintMarshaller] at hm
+  obtain ⟨addrs, h1, h2⟩ := ipv4Loop_ok _ _ hm
+  simp only [declValue, h1, Option.map_some] at hd
+  have hd := Option.some.inj hd
+  subst hd h2
+  simp [valid] at hv
+  have hall : ∀ a ∈ addrs, a.length = 4 := fun a ha => hv.2 a ha
+  have hne : addrs ≠ [] := hv.1
+  have hstr : addrs.map ipString = addrs.map fmtV4 := by
+    apply List.map_congr_left
+    intro a ha
+    simp [ipString, hall a ha]
+  refine ⟨intercalate [0x7c] (addrs.map fmtV4), ?_, ?_, ?_, ?_⟩
+  · simp only [unmarshalValue, ipv4hintUnmarshaller, chunks_eq_decodeAddrs]
+    rw [decodeAddrs_flatten 4 (by omega) addrs hall _ (flatten_length_ge 4 (by omega) addrs hall)]
+    simp only [Option.map_some, hstr]
+  · simp only [marshalValue, ipv4hintMarshaller]
+    rw [splitOn_intercalate 0x7c _ (by simpa using hne)]
+    · exact ipv4Loop_complete addrs hall
+    · intro s hs hm'
+      obtain ⟨a, _, rfl⟩ := List.mem_map.mp hs
+      rcases fmtV4_chars a _ hm' with h | h
+      · exact (isDigit_ne h).2.2.1 rfl
+      · simp at h
+  · intro hm'
+    rcases mem_intercalate hm' with h | ⟨s, hs, hc⟩
+    · simp at h
+    · obtain ⟨a, _, rfl⟩ := List.mem_map.mp hs
+      rcases fmtV4_chars a _ hc with h | h
+      · exact (isDigit_ne h).1 rfl
+      · simp at h
+  · intro hm'
+    rcases mem_intercalate hm' with h | ⟨s, hs, hc⟩
+    · simp [dquote] at h
+    · obtain ⟨a, _, rfl⟩ := List.mem_map.mp hs
+      rcases fmtV4_chars a _ hc with h | h
+      · exact (isDigit_ne h).2.1 rfl
+      · simp [dquote] at h
+
+
+
+/-! ### echconfig (base64) -/
+
+def b64CharOK (n : Nat) : Bool :=
+  b64Val (b64Char n) == some n && b64Char n != b64pad && b64Char n != 0x0a && b64Char n != 0x0d &&
+  b64Char n != dquote && b64Char n != 0x3b
+
+theorem b64Char_all : (List.range 64).all b64CharOK = true := by decide +kernel
+
+theorem b64Char_facts (n : Nat) (h : n < 64) :
+    b64Val (b64Char n) = some n ∧ b64Char n ≠ b64pad ∧ b64Char n ≠ 0x0a ∧ b64Char n ≠ 0x0d ∧
+    b64Char n ≠ dquote ∧ b64Char n ≠ 0x3b := by
+  have := List.all_eq_true.mp b64Char_all n (List.mem_range.mpr h)
+  simp [b64CharOK] at this
+  obtain ⟨⟨⟨⟨⟨a, b⟩, c⟩, d⟩, e⟩, f⟩ := this
+  exact ⟨a, b, c, d, e, f⟩
+
+/-- a character of the encoder's output -/
+def IsB64 (c : UInt8) : Prop := c = b64pad ∨ ∃ n, n < 64 ∧ c = b64Char n
+
+theorem b64Encode_chars (v : Bytes) : ∀ c ∈ b64Encode v, IsB64 c := by
+  induction v using b64Encode.induct with
+  | case1 => simp [b64Encode]
+  | case2 a =>
+    intro c hc
+    have ha := a.toNat_lt
+    simp only [b64Encode, List.mem_cons, List.not_mem_nil, or_false] at hc
+    rcases hc with rfl | rfl | rfl | rfl
+    · exact Or.inr ⟨_, by omega, rfl⟩
+    · exact Or.inr ⟨_, by omega, rfl⟩
+    · exact Or.inl rfl
+    · exact Or.inl rfl
+  | case3 a b =>
+    intro c hc
+    have ha := a.toNat_lt
+    have hb := b.toNat_lt
+    simp only [b64Encode, List.mem_cons, List.not_mem_nil, or_false] at hc
+    rcases hc with rfl | rfl | rfl | rfl
+    · exact Or.inr ⟨_, by omega, rfl⟩
+    · exact Or.inr ⟨_, by omega, rfl⟩
+    · exact Or.inr ⟨_, by omega, rfl⟩
+    · exact Or.inl rfl
+  | case4 a b c rest ih =>
+    intro x hx
+    have ha := a.toNat_lt
+    have hb := b.toNat_lt
+    have hc := c.toNat_lt
+    simp only [b64Encode, List.mem_cons] at hx
+    rcases hx with rfl | rfl | rfl | rfl | hx
+    · exact Or.inr ⟨_, by omega, rfl⟩
+    · exact Or.inr ⟨_, by omega, rfl⟩
+    · exact Or.inr ⟨_, by omega, rfl⟩
+    · exact Or.inr ⟨_, by omega, rfl⟩
+    · exact ih x hx
+
+theorem IsB64.ne {c : UInt8} (h : IsB64 c) : c ≠ 0x0a ∧ c ≠ 0x0d ∧ c ≠ dquote ∧ c ≠ 0x3b := by
+  rcases h with rfl | ⟨n, hn, rfl⟩
+  · decide
+  · obtain ⟨_, _, h1, h2, h3, h4⟩ := b64Char_facts n hn
+    exact ⟨h1, h2, h3, h4⟩
+
+theorem b64Encode_eq_nil {v : Bytes} (h : b64Encode v = []) : v = [] := by
+  match v with
+  | [] => rfl
+  | [_] => simp [b64Encode] at h
+  | [_, _] => simp [b64Encode] at h
+  | _ :: _ :: _ :: _ => simp [b64Encode] at h
+
+theorem ofNat_toNat8 (a : UInt8) : UInt8.ofNat a.toNat = a := UInt8.ofNat_toNat
+
+theorem b64DecodeGo_encode (v : Bytes) : b64DecodeGo (b64Encode v) = some v := by
+  induction v using b64Encode.induct with
+  | case1 => rfl
+  | case2 a =>
+    have ha := a.toNat_lt
+    obtain ⟨h1, _⟩ := b64Char_facts (a.toNat / 4) (by omega)
+    obtain ⟨h2, _⟩ := b64Char_facts (a.toNat % 4 * 16) (by omega)
+    simp only [b64Encode, b64DecodeGo, h1, h2, if_true]
+    have : (a.toNat / 4 * 64 + a.toNat % 4 * 16) / 16 = a.toNat := by omega
+    rw [this, ofNat_toNat8]
+  | case3 a b =>
+    have ha := a.toNat_lt
+    have hb := b.toNat_lt
+    obtain ⟨h1, _⟩ := b64Char_facts ((a.toNat * 256 + b.toNat) / 1024) (by omega)
+    obtain ⟨h2, _⟩ := b64Char_facts ((a.toNat * 256 + b.toNat) / 16 % 64) (by omega)
+    obtain ⟨h3, hp3, _⟩ := b64Char_facts ((a.toNat * 256 + b.toNat) % 16 * 4) (by omega)
+    simp only [b64Encode, b64DecodeGo, h1, h2, h3, if_neg hp3, if_true]
+    congr 2
+    · rw [← ofNat_toNat8 a]; congr 1; simp only [UInt8.toNat_ofNat']; omega
+    · congr 1
+      rw [← ofNat_toNat8 b]; congr 1; simp only [UInt8.toNat_ofNat']; omega
+  | case4 a b c rest ih =>
+    have ha := a.toNat_lt
+    have hb := b.toNat_lt
+    have hc := c.toNat_lt
+    obtain ⟨h1, _⟩ := b64Char_facts (((a.toNat * 256 + b.toNat) * 256 + c.toNat) / 262144) (by omega)
+    obtain ⟨h2, _⟩ := b64Char_facts (((a.toNat * 256 + b.toNat) * 256 + c.toNat) / 4096 % 64) (by omega)
+    obtain ⟨h3, hp3, _⟩ := b64Char_facts (((a.toNat * 256 + b.toNat) * 256 + c.toNat) / 64 % 64) (by omega)
+    obtain ⟨h4, hp4, _⟩ := b64Char_facts (((a.toNat * 256 + b.toNat) * 256 + c.toNat) % 64) (by omega)
+    have key : ∀ x y z : UInt8, x.toNat = a.toNat → y.toNat = b.toNat → z.toNat = c.toNat →
+        x = a ∧ y = b ∧ z = c := by
+      intro x y z hx hy hz
+      exact ⟨UInt8.toNat_inj.mp hx, UInt8.toNat_inj.mp hy, UInt8.toNat_inj.mp hz⟩
+    obtain ⟨e1, e2, e3⟩ := key
+      (UInt8.ofNat ((((((a.toNat * 256 + b.toNat) * 256 + c.toNat) / 262144 * 64 +
+        ((a.toNat * 256 + b.toNat) * 256 + c.toNat) / 4096 % 64) * 64 +
+        ((a.toNat * 256 + b.toNat) * 256 + c.toNat) / 64 % 64) * 64 +
+        ((a.toNat * 256 + b.toNat) * 256 + c.toNat) % 64) / 65536))
+      (UInt8.ofNat ((((((a.toNat * 256 + b.toNat) * 256 + c.toNat) / 262144 * 64 +
+        ((a.toNat * 256 + b.toNat) * 256 + c.toNat) / 4096 % 64) * 64 +
+        ((a.toNat * 256 + b.toNat) * 256 + c.toNat) / 64 % 64) * 64 +
+        ((a.toNat * 256 + b.toNat) * 256 + c.toNat) % 64) / 256 % 256))
+      (UInt8.ofNat ((((((a.toNat * 256 + b.toNat) * 256 + c.toNat) / 262144 * 64 +
+        ((a.toNat * 256 + b.toNat) * 256 + c.toNat) / 4096 % 64) * 64 +
+        ((a.toNat * 256 + b.toNat) * 256 + c.toNat) / 64 % 64) * 64 +
+        ((a.toNat * 256 + b.toNat) * 256 + c.toNat) % 64) % 256))
+      (by simp only [UInt8.toNat_ofNat']; omega) (by simp only [UInt8.toNat_ofNat']; omega)
+      (by simp only [UInt8.toNat_ofNat']; omega)
+    cases hr : b64Encode rest with
+    | nil =>
+      have := b64Encode_eq_nil hr
+      subst this
+      simp only [b64Encode, b64DecodeGo, h1, h2, h3, h4, if_neg hp3, if_neg hp4, e1, e2, e3]
+    | cons r rs =>
+      rw [hr] at ih
+      simp only [b64Encode, hr, b64DecodeGo, h1, h2, h3, h4, ih, e1, e2, e3]
+
+theorem b64Decode_encode (v : Bytes) : b64Decode (b64Encode v) = some v := by
+  unfold b64Decode
+  rw [List.filter_eq_self.mpr, b64DecodeGo_encode]
+  intro c hc
+  obtain ⟨h1, h2, _⟩ := (b64Encode_chars v c hc).ne
+  simp [h1, h2]
+
+theorem rt_ech (data : Bytes) :
+    ∃ s, unmarshalValue 5 data = some s ∧ marshalValue 5 s = .ok data ∧ 0x3b ∉ s ∧ dquote ∉ s := by
+  refine ⟨b64Encode data, rfl, ?_, ?_, ?_⟩
+  · simp only [marshalValue, echMarshaller, b64Decode_encode]
+  · intro h; exact (b64Encode_chars _ _ h).ne.2.2.2 rfl
+  · intro h; exact (b64Encode_chars _ _ h).ne.2.2.1 rfl
+
+
+/-! ### `net.IP.String` (IPv6 form) → `net.ParseIP` -/
+
+/-! ### one hex digit -/
+
+theorem hexVal_hexDigitLower : ∀ d, d < 16 → hexVal (hexDigitLower d) = some d := by decide
+
+theorem isHex_hexDigitLower (d : Nat) (h : d < 16) : isHex (hexDigitLower d) = true := by
+  unfold isHex; rw [hexVal_hexDigitLower d h]; rfl
+
+theorem isHex_colon : isHex 0x3a = false := by decide
+theorem isHex_dot : isHex 0x2e = false := by decide
+theorem isHex_pct : isHex 0x25 = false := by decide
+
+theorem isHex_ne_colon {c : UInt8} (h : isHex c = true) : c ≠ 0x3a := by
+  intro e; rw [e, isHex_colon] at h; cases h
+theorem isHex_ne_dot {c : UInt8} (h : isHex c = true) : c ≠ 0x2e := by
+  intro e; rw [e, isHex_dot] at h; cases h
+theorem isHex_ne_pct {c : UInt8} (h : isHex c = true) : c ≠ 0x25 := by
+  intro e; rw [e, isHex_pct] at h; cases h
+
+/-! ### one group -/
+
+theorem hexNum_nil : hexNum [] = 0 := rfl
+
+theorem hexNum1 (a : Nat) (ha : a < 16) : hexNum [hexDigitLower a] = a := by
+  simp only [hexNum, List.foldl, hexVal_hexDigitLower a ha, Option.getD_some]; omega
+
+theorem hexNum2 (a b : Nat) (ha : a < 16) (hb : b < 16) :
+    hexNum [hexDigitLower a, hexDigitLower b] = a * 16 + b := by
+  simp only [hexNum, List.foldl, hexVal_hexDigitLower a ha, hexVal_hexDigitLower b hb,
+    Option.getD_some]; omega
+
+theorem hexNum3 (a b c : Nat) (ha : a < 16) (hb : b < 16) (hc : c < 16) :
+    hexNum [hexDigitLower a, hexDigitLower b, hexDigitLower c] = (a * 16 + b) * 16 + c := by
+  simp only [hexNum, List.foldl, hexVal_hexDigitLower a ha, hexVal_hexDigitLower b hb,
+    hexVal_hexDigitLower c hc, Option.getD_some]; omega
+
+theorem hexNum4 (a b c d : Nat) (ha : a < 16) (hb : b < 16) (hc : c < 16) (hd : d < 16) :
+    hexNum [hexDigitLower a, hexDigitLower b, hexDigitLower c, hexDigitLower d]
+      = ((a * 16 + b) * 16 + c) * 16 + d := by
+  simp only [hexNum, List.foldl, hexVal_hexDigitLower a ha, hexVal_hexDigitLower b hb,
+    hexVal_hexDigitLower c hc, hexVal_hexDigitLower d hd, Option.getD_some]; omega
+
+/-- what the parser needs to know about the text of one group -/
+structure GroupText (ds : Bytes) (n : Nat) : Prop where
+  ne : ds ≠ []
+  len : ds.length ≤ 4
+  hex : ∀ c ∈ ds, isHex c = true
+  num : hexNum ds = n
+
+theorem fmtHex16_spec (n : Nat) (h : n < 65536) : GroupText (fmtHex16 n) n := by
+  have m16 : ∀ k : Nat, k % 16 < 16 := fun k => Nat.mod_lt _ (by decide)
+  unfold fmtHex16
+  by_cases h1 : n ≥ 4096
+  · rw [if_pos h1]
+    refine ⟨by simp, by simp, ?_, ?_⟩
+    · intro c hc
+      simp only [List.mem_cons, List.not_mem_nil, or_false] at hc
+      rcases hc with rfl | rfl | rfl | rfl <;> exact isHex_hexDigitLower _ (m16 _)
+    · rw [hexNum4 _ _ _ _ (m16 _) (m16 _) (m16 _) (m16 _)]; omega
+  · rw [if_neg h1]
+    by_cases h2 : n ≥ 256
+    · rw [if_pos h2]
+      refine ⟨by simp, by simp, ?_, ?_⟩
+      · intro c hc
+        simp only [List.mem_cons, List.not_mem_nil, or_false] at hc
+        rcases hc with rfl | rfl | rfl <;> exact isHex_hexDigitLower _ (m16 _)
+      · rw [hexNum3 _ _ _ (m16 _) (m16 _) (m16 _)]; omega
+    · rw [if_neg h2]
+      by_cases h3 : n ≥ 16
+      · rw [if_pos h3]
+        refine ⟨by simp, by simp, ?_, ?_⟩
+        · intro c hc
+          simp only [List.mem_cons, List.not_mem_nil, or_false] at hc
+          rcases hc with rfl | rfl <;> exact isHex_hexDigitLower _ (m16 _)
+        · rw [hexNum2 _ _ (m16 _) (m16 _)]; omega
+      · rw [if_neg h3]
+        have hn : n < 16 := by omega
+        refine ⟨by simp, by simp, ?_, ?_⟩
+        · intro c hc
+          simp only [List.mem_cons, List.not_mem_nil, or_false] at hc
+          rcases hc with rfl; exact isHex_hexDigitLower _ hn
+        · exact hexNum1 _ hn
+
+/-! ### groups of a byte string -/
+
+theorem u16be_pair (x y : UInt8) : u16be (x.toNat * 256 + y.toNat) = [x, y] := by
+  have hx := x.toNat_lt
+  have hy := y.toNat_lt
+  unfold u16be
+  have e1 : (x.toNat * 256 + y.toNat) / 256 % 256 = x.toNat := by omega
+  have e2 : (x.toNat * 256 + y.toNat) % 256 = y.toNat := by omega
+  rw [e1, e2, UInt8.ofNat_toNat, UInt8.ofNat_toNat]
+
+theorem groups16_spec : ∀ (a : Bytes), a.length % 2 = 0 →
+    (groups16 a).flatMap u16be = a ∧ (∀ g ∈ groups16 a, g < 65536) ∧
+    (groups16 a).length * 2 = a.length
+  | [], _ => by simp [groups16]
+  | [_], h => by simp at h
+  | x :: y :: rest, h => by
+    have h' : rest.length % 2 = 0 := by simp only [List.length_cons] at h; omega
+    obtain ⟨i1, i2, i3⟩ := groups16_spec rest h'
+    have hx := x.toNat_lt
+    have hy := y.toNat_lt
+    refine ⟨?_, ?_, ?_⟩
+    · simp only [groups16, List.flatMap_cons, u16be_pair, i1]; rfl
+    · intro g hg
+      simp only [groups16, List.mem_cons] at hg
+      rcases hg with rfl | hg
+      · omega
+      · exact i2 g hg
+    · simp only [groups16, List.length_cons]; omega
+
+/-! ### scanning the digits of a group -/
+
+theorem takeWhile_hex_colon (ds rest : Bytes) (h : ∀ c ∈ ds, isHex c = true) :
+    (ds ++ 0x3a :: rest).takeWhile isHex = ds ∧ (ds ++ 0x3a :: rest).dropWhile isHex = 0x3a :: rest := by
+  induction ds with
+  | nil => simp [isHex_colon]
+  | cons c ds ih =>
+    have hc : isHex c = true := h c (List.mem_cons_self)
+    have ih' := ih (fun c hc => h c (List.mem_cons_of_mem _ hc))
+    simp only [List.cons_append, List.takeWhile, List.dropWhile, hc, ih'.1, ih'.2, and_self]
+
+theorem takeWhile_hex_end (ds : Bytes) (h : ∀ c ∈ ds, isHex c = true) :
+    ds.takeWhile isHex = ds ∧ ds.dropWhile isHex = [] := by
+  induction ds with
+  | nil => simp
+  | cons c ds ih =>
+    have hc : isHex c = true := h c (List.mem_cons_self)
+    have ih' := ih (fun c hc => h c (List.mem_cons_of_mem _ hc))
+    simp only [List.takeWhile, List.dropWhile, hc, ih'.1, ih'.2, and_self]
+
+/-! ### one iteration of the loop -/
+
+theorem loop_step (fuel : Nat) (s out : Bytes) (ell : Option Nat) (digits rest : Bytes) (n : Nat)
+    (hT : s.takeWhile isHex = digits) (hD : s.dropWhile isHex = rest)
+    (h16 : out.length < 16) (hg : GroupText digits n) (hdot : rest.head? ≠ some 0x2e) :
+    parseV6Loop (fuel + 1) s out ell =
+      match rest with
+      | [] => some (out ++ u16be n, ell, [])
+      | c :: s1 =>
+        if c ≠ 0x3a then none
+        else match s1 with
+          | [] => none
+          | c2 :: s2 =>
+            if c2 = 0x3a then
+              if ell.isSome then none
+              else if s2.isEmpty then some (out ++ u16be n, some (out ++ u16be n).length, [])
+              else parseV6Loop fuel s2 (out ++ u16be n) (some (out ++ u16be n).length)
+            else parseV6Loop fuel s1 (out ++ u16be n) ell := by
+  have h1 : ¬ out.length ≥ 16 := by omega
+  have h2 : ¬ digits.length > 4 := by have := hg.len; omega
+  have h3 : ¬ digits.length = 0 := by
+    intro e; exact hg.ne (List.eq_nil_of_length_eq_zero e)
+  rw [parseV6Loop]
+  simp only [hT, hD]
+  rw [if_neg h1, if_neg h2, if_neg h3, if_neg hdot, hg.num]
+  cases rest with
+  | nil => rfl
+  | cons c s1 => cases s1 <;> rfl
+
+theorem step_end (fuel : Nat) (ds out : Bytes) (ell : Option Nat) (n : Nat)
+    (h16 : out.length < 16) (hg : GroupText ds n) :
+    parseV6Loop (fuel + 1) ds out ell = some (out ++ u16be n, ell, []) := by
+  have t := takeWhile_hex_end ds hg.hex
+  rw [loop_step fuel ds out ell ds [] n t.1 t.2 h16 hg (by simp)]
+
+theorem step_colon (fuel : Nat) (ds out : Bytes) (ell : Option Nat) (n : Nat) (c2 : UInt8) (s2 : Bytes)
+    (h16 : out.length < 16) (hg : GroupText ds n) (hc2 : c2 ≠ 0x3a) :
+    parseV6Loop (fuel + 1) (ds ++ 0x3a :: c2 :: s2) out ell
+      = parseV6Loop fuel (c2 :: s2) (out ++ u16be n) ell := by
+  have t := takeWhile_hex_colon ds (c2 :: s2) hg.hex
+  rw [loop_step fuel _ out ell ds _ n t.1 t.2 h16 hg (by simp)]
+  simp only [ne_eq, not_true_eq_false, if_false, if_neg hc2]
+
+theorem step_ell_end (fuel : Nat) (ds out : Bytes) (n : Nat)
+    (h16 : out.length < 16) (hg : GroupText ds n) :
+    parseV6Loop (fuel + 1) (ds ++ [0x3a, 0x3a]) out none
+      = some (out ++ u16be n, some (out ++ u16be n).length, []) := by
+  have t := takeWhile_hex_colon ds [0x3a] hg.hex
+  rw [loop_step fuel _ out none ds _ n t.1 t.2 h16 hg (by simp)]
+  simp
+
+theorem step_ell (fuel : Nat) (ds out : Bytes) (n : Nat) (s2 : Bytes)
+    (h16 : out.length < 16) (hg : GroupText ds n) (hs2 : s2 ≠ []) :
+    parseV6Loop (fuel + 1) (ds ++ 0x3a :: 0x3a :: s2) out none
+      = parseV6Loop fuel s2 (out ++ u16be n) (some (out ++ u16be n).length) := by
+  have t := takeWhile_hex_colon ds (0x3a :: s2) hg.hex
+  rw [loop_step fuel _ out none ds _ n t.1 t.2 h16 hg (by simp)]
+  have : s2.isEmpty = false := by cases s2 with
+    | nil => exact absurd rfl hs2
+    | cons _ _ => rfl
+  simp [this]
+
+/-! ### a colon-separated run of groups -/
+
+def txt (gs : List Nat) : Bytes := intercalate [0x3a] (gs.map fmtHex16)
+
+theorem txt_nil : txt [] = [] := rfl
+theorem txt_one (g : Nat) : txt [g] = fmtHex16 g := rfl
+theorem txt_cons2 (g g' : Nat) (rest : List Nat) :
+    txt (g :: g' :: rest) = fmtHex16 g ++ 0x3a :: txt (g' :: rest) := by
+  simp [txt, intercalate]
+
+theorem txt_head (g : Nat) (gs : List Nat) (h : g < 65536) :
+    ∃ c s, txt (g :: gs) = c :: s ∧ isHex c = true := by
+  have sp := fmtHex16_spec g h
+  cases hd : fmtHex16 g with
+  | nil => exact absurd hd sp.ne
+  | cons c ds =>
+    have hc : isHex c = true := sp.hex c (by rw [hd]; exact List.mem_cons_self)
+    cases gs with
+    | nil => exact ⟨c, ds, by rw [txt_one, hd], hc⟩
+    | cons g' rest => exact ⟨c, ds ++ 0x3a :: txt (g' :: rest), by rw [txt_cons2, hd]; rfl, hc⟩
+
+theorem u16be_length (n : Nat) : (u16be n).length = 2 := rfl
+
+theorem loop_end : ∀ (gs : List Nat) (k : Nat) (out : Bytes) (ell : Option Nat),
+    gs ≠ [] → (∀ g ∈ gs, g < 65536) → out.length + 2 * gs.length ≤ 16 →
+    parseV6Loop (gs.length + k) (txt gs) out ell = some (out ++ gs.flatMap u16be, ell, [])
+  | [], _, _, _, h, _, _ => absurd rfl h
+  | [g], k, out, ell, _, hb, hl => by
+    have hg := fmtHex16_spec g (hb g List.mem_cons_self)
+    have h16 : out.length < 16 := by simp only [List.length_cons, List.length_nil] at hl; omega
+    have e : [g].length + k = k + 1 := by simp only [List.length_cons, List.length_nil]; omega
+    rw [e, txt_one, step_end k _ out ell g h16 hg]
+    simp
+  | g :: g' :: rest, k, out, ell, _, hb, hl => by
+    have hg := fmtHex16_spec g (hb g List.mem_cons_self)
+    have hg' : g' < 65536 := hb g' (List.mem_cons_of_mem _ List.mem_cons_self)
+    have h16 : out.length < 16 := by simp only [List.length_cons] at hl; omega
+    have e : (g :: g' :: rest).length + k = ((g' :: rest).length + k) + 1 := by
+      simp only [List.length_cons]; omega
+    obtain ⟨c2, s2, ht, hc2⟩ := txt_head g' rest hg'
+    rw [e, txt_cons2, ht, step_colon _ _ out ell g c2 s2 h16 hg (isHex_ne_colon hc2), ← ht]
+    rw [loop_end (g' :: rest) k (out ++ u16be g) ell (by simp)
+      (fun x hx => hb x (List.mem_cons_of_mem _ hx))
+      (by simp only [List.length_append, u16be_length, List.length_cons] at hl ⊢; omega)]
+    simp
+
+theorem loop_ell : ∀ (gs : List Nat) (k : Nat) (out tail : Bytes),
+    gs ≠ [] → (∀ g ∈ gs, g < 65536) → out.length + 2 * gs.length ≤ 16 →
+    parseV6Loop (gs.length + k) (txt gs ++ 0x3a :: 0x3a :: tail) out none =
+      if tail = [] then
+        some (out ++ gs.flatMap u16be, some (out ++ gs.flatMap u16be).length, [])
+      else parseV6Loop k tail (out ++ gs.flatMap u16be) (some (out ++ gs.flatMap u16be).length)
+  | [], _, _, _, h, _, _ => absurd rfl h
+  | [g], k, out, tail, _, hb, hl => by
+    have hg := fmtHex16_spec g (hb g List.mem_cons_self)
+    have h16 : out.length < 16 := by simp only [List.length_cons, List.length_nil] at hl; omega
+    have e : [g].length + k = k + 1 := by simp only [List.length_cons, List.length_nil]; omega
+    have f : [g].flatMap u16be = u16be g := by simp
+    rw [e, txt_one, f]
+    by_cases ht : tail = []
+    · subst ht
+      rw [if_pos rfl, step_ell_end k _ out g h16 hg]
+    · rw [if_neg ht, step_ell k _ out g tail h16 hg ht]
+  | g :: g' :: rest, k, out, tail, _, hb, hl => by
+    have hg := fmtHex16_spec g (hb g List.mem_cons_self)
+    have hg' : g' < 65536 := hb g' (List.mem_cons_of_mem _ List.mem_cons_self)
+    have h16 : out.length < 16 := by simp only [List.length_cons] at hl; omega
+    have e : (g :: g' :: rest).length + k = ((g' :: rest).length + k) + 1 := by
+      simp only [List.length_cons]; omega
+    obtain ⟨c2, s2, ht, hc2⟩ := txt_head g' rest hg'
+    have e2 : txt (g :: g' :: rest) ++ 0x3a :: 0x3a :: tail
+        = fmtHex16 g ++ 0x3a :: c2 :: (s2 ++ 0x3a :: 0x3a :: tail) := by
+      rw [txt_cons2, ht]; simp
+    have e3 : c2 :: (s2 ++ 0x3a :: 0x3a :: tail) = txt (g' :: rest) ++ 0x3a :: 0x3a :: tail := by
+      rw [ht]; rfl
+    rw [e, e2, step_colon _ _ out none g c2 _ h16 hg (isHex_ne_colon hc2), e3]
+    rw [loop_ell (g' :: rest) k (out ++ u16be g) tail (by simp)
+      (fun x hx => hb x (List.mem_cons_of_mem _ hx))
+      (by simp only [List.length_append, u16be_length, List.length_cons] at hl ⊢; omega)]
+    have f : out ++ u16be g ++ (g' :: rest).flatMap u16be = out ++ (g :: g' :: rest).flatMap u16be := by
+      simp
+    rw [f]
+
+theorem loop_end' (gs : List Nat) (fuel : Nat) (out : Bytes) (ell : Option Nat)
+    (hne : gs ≠ []) (hb : ∀ g ∈ gs, g < 65536) (hl : out.length + 2 * gs.length ≤ 16)
+    (hf : gs.length ≤ fuel) :
+    parseV6Loop fuel (txt gs) out ell = some (out ++ gs.flatMap u16be, ell, []) := by
+  have := loop_end gs (fuel - gs.length) out ell hne hb hl
+  rwa [show gs.length + (fuel - gs.length) = fuel by omega] at this
+
+/-! ### the zero run found by `bestRun` -/
+
+theorem leadingZeros_zero (rest : List Nat) : leadingZeros (0 :: rest) = leadingZeros rest + 1 := rfl
+theorem leadingZeros_succ (g : Nat) (rest : List Nat) : leadingZeros ((g + 1) :: rest) = 0 := rfl
+theorem leadingZeros_nil : leadingZeros [] = 0 := rfl
+
+theorem leadingZeros_le_length : ∀ l : List Nat, leadingZeros l ≤ l.length
+  | [] => Nat.le_refl 0
+  | 0 :: rest => by
+    rw [leadingZeros_zero, List.length_cons]; exact Nat.succ_le_succ (leadingZeros_le_length rest)
+  | (g + 1) :: rest => by rw [leadingZeros_succ]; exact Nat.zero_le _
+
+theorem take_leadingZeros : ∀ (l : List Nat) (n : Nat), n ≤ leadingZeros l →
+    l.take n = List.replicate n 0
+  | _, 0, _ => by simp
+  | [], n + 1, h => by rw [leadingZeros_nil] at h; omega
+  | 0 :: rest, n + 1, h => by
+    rw [leadingZeros_zero] at h
+    rw [List.take_succ_cons, List.replicate_succ, take_leadingZeros rest n (by omega)]
+  | (g + 1) :: rest, n + 1, h => by rw [leadingZeros_succ] at h; omega
+
+theorem bestRun_inv (G : List Nat) : ∀ (rest : List Nat) (i : Nat) (best : Nat × Nat),
+    G.drop i = rest → best.2 ≤ leadingZeros (G.drop best.1) →
+    (bestRun rest i best).2 ≤ leadingZeros (G.drop (bestRun rest i best).1)
+  | [], _, _, _, hb => hb
+  | g :: rest, i, best, hd, hb => by
+    have hd' : G.drop (i + 1) = rest := by
+      rw [← List.drop_drop, hd]; rfl
+    rw [bestRun]
+    apply bestRun_inv G rest (i + 1) _ hd'
+    by_cases hc : leadingZeros (g :: rest) ≥ 2 ∧ leadingZeros (g :: rest) > best.2
+    · rw [if_pos hc]; simp only; rw [hd]; exact Nat.le_refl _
+    · rw [if_neg hc]; exact hb
+
+theorem bestRun_spec (gs : List Nat) (start len : Nat) (h : bestRun gs 0 (0, 0) = (start, len)) :
+    len ≤ leadingZeros (gs.drop start) := by
+  have := bestRun_inv gs gs 0 (0, 0) rfl (Nat.zero_le _)
+  rw [h] at this; exact this
+
+/-- a list with a run of `len` zeros at `start` -/
+theorem split_run (gs : List Nat) (start len : Nat) (h : len ≤ leadingZeros (gs.drop start))
+    (hpos : len > 0) :
+    gs = gs.take start ++ List.replicate len 0 ++ gs.drop (start + len) ∧
+    (gs.take start).length = start ∧
+    start + len + (gs.drop (start + len)).length = gs.length := by
+  have h1 := leadingZeros_le_length (gs.drop start)
+  rw [List.length_drop] at h1
+  have h2 := take_leadingZeros _ _ h
+  refine ⟨?_, ?_, ?_⟩
+  · rw [← h2, List.append_assoc, ← List.drop_drop, List.take_append_drop, List.take_append_drop]
+  · rw [List.length_take]; omega
+  · rw [List.length_drop]; omega
+
+/-! ### the characters of the text -/
+
+def V6Chars (s : Bytes) : Prop := ∀ c ∈ s, isHex c = true ∨ c = 0x3a
+
+theorem V6Chars.append {s t : Bytes} (hs : V6Chars s) (ht : V6Chars t) : V6Chars (s ++ t) := by
+  intro c hc
+  rcases List.mem_append.mp hc with h | h
+  · exact hs c h
+  · exact ht c h
+
+theorem V6Chars.cons_colon {s : Bytes} (hs : V6Chars s) : V6Chars (0x3a :: s) := by
+  intro c hc
+  rcases List.mem_cons.mp hc with h | h
+  · exact Or.inr h
+  · exact hs c h
+
+theorem V6Chars.nil : V6Chars [] := by intro c hc; cases hc
+
+theorem V6Chars_group (g : Nat) (h : g < 65536) : V6Chars (fmtHex16 g) :=
+  fun c hc => Or.inl ((fmtHex16_spec g h).hex c hc)
+
+theorem txt_chars : ∀ (gs : List Nat), (∀ g ∈ gs, g < 65536) → V6Chars (txt gs)
+  | [], _ => V6Chars.nil
+  | [g], hb => by rw [txt_one]; exact V6Chars_group g (hb g List.mem_cons_self)
+  | g :: g' :: rest, hb => by
+    rw [txt_cons2]
+    exact (V6Chars_group g (hb g List.mem_cons_self)).append
+      (txt_chars (g' :: rest) (fun x hx => hb x (List.mem_cons_of_mem _ hx))).cons_colon
+
+theorem V6Chars.no_pct {s : Bytes} (hs : V6Chars s) : s.contains 0x25 = false := by
+  cases h : s.contains 0x25 with
+  | false => rfl
+  | true =>
+    have hm : (0x25 : UInt8) ∈ s := List.contains_iff_mem.mp h
+    rcases hs _ hm with h1 | h1
+    · rw [isHex_pct] at h1; cases h1
+    · exact absurd h1 (by decide)
+
+theorem V6Chars.find {s : Bytes} (hs : V6Chars s) (hc : s.contains 0x3a = true) :
+    s.find? (fun c => c == 0x2e || c == 0x3a || c == 0x25) = some 0x3a := by
+  induction s with
+  | nil => cases hc
+  | cons c s ih =>
+    rcases hs c List.mem_cons_self with h | h
+    · have n1 : (c == 0x2e) = false := beq_false_of_ne (isHex_ne_dot h)
+      have n2 : (c == 0x3a) = false := beq_false_of_ne (isHex_ne_colon h)
+      have n3 : (c == 0x25) = false := beq_false_of_ne (isHex_ne_pct h)
+      have hc' : s.contains 0x3a = true := by
+        rw [List.contains_cons] at hc
+        have : ((0x3a : UInt8) == c) = false := beq_false_of_ne (fun e => isHex_ne_colon h e.symm)
+        rw [this] at hc; exact hc
+      rw [List.find?_cons]
+      simp only [n1, n2, n3, Bool.or_false]
+      exact ih (fun x hx => hs x (List.mem_cons_of_mem _ hx)) hc'
+    · subst h; rfl
+
+theorem parseIP_eq_parseV6 {s : Bytes} (hs : V6Chars s) (hc : s.contains 0x3a = true) :
+    parseIP s = parseV6 s := by
+  unfold parseIP
+  rw [hs.find hc]
+  show (if (0x3a : UInt8) = 0x2e then _
+    else if (0x3a : UInt8) = 0x3a then parseV6 s else none) = _
+  rw [if_neg (by decide), if_pos rfl]
+
+/-! ### `parseV6` around the loop -/
+
+theorem lead_false (c : UInt8) (s : Bytes) (hc : isHex c = true) :
+    ((c :: s).take 2 == [0x3a, 0x3a]) = false := by
+  have n2 : (c == 0x3a) = false := beq_false_of_ne (isHex_ne_colon hc)
+  cases s with
+  | nil => simp [n2]
+  | cons d s => simp [n2]
+
+theorem not_mem_of_contains_false {s : Bytes} {c : UInt8} (h : s.contains c = false) : ¬ c ∈ s := by
+  intro hm; rw [List.contains_iff_mem.mpr hm] at h; cases h
+
+theorem parseV6_full (s out : Bytes) (hp : s.contains 0x25 = false)
+    (hlead : (s.take 2 == [0x3a, 0x3a]) = false)
+    (hloop : parseV6Loop 10 s [] none = some (out, none, [])) (hlen : out.length = 16) :
+    parseV6 s = some out := by
+  have hm := not_mem_of_contains_false hp
+  unfold parseV6
+  simp [hm, hlead, hloop, hlen]
+
+theorem parseV6_ell (s out : Bytes) (e : Nat) (hp : s.contains 0x25 = false)
+    (hlead : (s.take 2 == [0x3a, 0x3a]) = false)
+    (hloop : parseV6Loop 10 s [] none = some (out, some e, [])) (hlen : out.length < 16) :
+    parseV6 s = some (out.take e ++ List.replicate (16 - out.length) 0 ++ out.drop e) := by
+  have hm := not_mem_of_contains_false hp
+  unfold parseV6
+  simp [hm, hlead, hloop, hlen]
+
+theorem parseV6_lead (s out : Bytes) (e : Nat) (hp : s.contains 0x25 = false) (hne : s ≠ [])
+    (hloop : parseV6Loop 10 s [] (some 0) = some (out, some e, [])) (hlen : out.length < 16) :
+    parseV6 (0x3a :: 0x3a :: s)
+      = some (out.take e ++ List.replicate (16 - out.length) 0 ++ out.drop e) := by
+  have hm := not_mem_of_contains_false hp
+  unfold parseV6
+  simp [hm, hne, hloop, hlen]
+
+theorem parseV6_zero : parseV6 [0x3a, 0x3a] = some (List.replicate 16 0) := by decide
+
+/-! ### assembling -/
+
+theorem flatMap_u16be_length : ∀ gs : List Nat, (gs.flatMap u16be).length = 2 * gs.length
+  | [] => rfl
+  | g :: gs => by
+    rw [List.flatMap_cons, List.length_append, u16be_length, flatMap_u16be_length gs,
+      List.length_cons]; omega
+
+theorem u16be_zero : u16be 0 = [0, 0] := rfl
+
+theorem flatMap_replicate_zero : ∀ n : Nat,
+    (List.replicate n 0).flatMap u16be = List.replicate (2 * n) (0 : UInt8)
+  | 0 => rfl
+  | n + 1 => by
+    rw [List.replicate_succ, List.flatMap_cons, flatMap_replicate_zero n,
+      show 2 * (n + 1) = (2 * n) + 1 + 1 by omega, List.replicate_succ, List.replicate_succ,
+      u16be_zero]; rfl
+
+theorem assemble (H T : Bytes) (n : Nat) (h : H.length + n + T.length = 16) :
+    (H ++ T).take H.length ++ List.replicate (16 - (H ++ T).length) 0 ++ (H ++ T).drop H.length
+      = H ++ List.replicate n 0 ++ T := by
+  have e : 16 - (H ++ T).length = n := by rw [List.length_append]; omega
+  rw [e, List.take_left, List.drop_left]
+
+theorem parseV6_plain (gs : List Nat) (h8 : gs.length = 8) (hb : ∀ g ∈ gs, g < 65536) :
+    parseV6 (txt gs) = some (gs.flatMap u16be) := by
+  cases gs with
+  | nil => cases h8
+  | cons g rest =>
+    obtain ⟨c, s, ht, hc⟩ := txt_head g rest (hb g List.mem_cons_self)
+    have hloop := loop_end' (g :: rest) 10 [] none (by simp) hb (by rw [h8]; decide)
+      (by rw [h8]; decide)
+    rw [List.nil_append] at hloop
+    exact parseV6_full _ _ (txt_chars _ hb).no_pct (by rw [ht]; exact lead_false c s hc) hloop
+      (by rw [flatMap_u16be_length, h8])
+
+theorem parseV6_ellipsis (hd tl : List Nat) (len : Nat) (hlen : len > 0)
+    (h8 : hd.length + len + tl.length = 8)
+    (hbh : ∀ g ∈ hd, g < 65536) (hbt : ∀ g ∈ tl, g < 65536) :
+    parseV6 (txt hd ++ [0x3a, 0x3a] ++ txt tl)
+      = some (hd.flatMap u16be ++ List.replicate (2 * len) 0 ++ tl.flatMap u16be) := by
+  have hH := flatMap_u16be_length hd
+  have hT := flatMap_u16be_length tl
+  have hpct : (txt hd ++ [0x3a, 0x3a] ++ txt tl).contains 0x25 = false :=
+    (((txt_chars hd hbh).append V6Chars.nil.cons_colon.cons_colon).append (txt_chars tl hbt)).no_pct
+  cases hd with
+  | nil =>
+    cases tl with
+    | nil =>
+      have : len = 8 := by simp only [List.length_nil] at h8; omega
+      subst this
+      exact parseV6_zero
+    | cons g rest =>
+      obtain ⟨c, s, ht, hc⟩ := txt_head g rest (hbt g List.mem_cons_self)
+      have hloop := loop_end' (g :: rest) 10 [] (some 0) (by simp) hbt
+        (by simp only [List.length_nil] at h8 ⊢; omega)
+        (by simp only [List.length_nil] at h8; omega)
+      rw [List.nil_append] at hloop
+      have hp : (txt (g :: rest)).contains 0x25 = false := (txt_chars _ hbt).no_pct
+      have := parseV6_lead (txt (g :: rest)) _ 0 hp (by rw [ht]; exact List.cons_ne_nil _ _) hloop
+        (by rw [hT]; simp only [List.length_nil] at h8; omega)
+      have asm := assemble [] ((g :: rest).flatMap u16be) (2 * len)
+        (by rw [hT]; simp only [List.length_nil] at h8 ⊢; omega)
+      rw [txt_nil]
+      exact this.trans (congrArg some asm)
+  | cons g0 rest0 =>
+    obtain ⟨c, s, ht, hc⟩ := txt_head g0 rest0 (hbh g0 List.mem_cons_self)
+    have hlead : ((txt (g0 :: rest0) ++ [0x3a, 0x3a] ++ txt tl).take 2 == [0x3a, 0x3a]) = false := by
+      rw [ht]; exact lead_false c _ hc
+    have hloop : parseV6Loop 10 (txt (g0 :: rest0) ++ [0x3a, 0x3a] ++ txt tl) [] none
+        = some ((g0 :: rest0).flatMap u16be ++ tl.flatMap u16be,
+            some ((g0 :: rest0).flatMap u16be).length, []) := by
+      have e : txt (g0 :: rest0) ++ [0x3a, 0x3a] ++ txt tl
+          = txt (g0 :: rest0) ++ 0x3a :: 0x3a :: txt tl := by simp
+      have l1 := loop_ell (g0 :: rest0) (10 - (g0 :: rest0).length) [] (txt tl) (by simp) hbh
+        (by rw [List.length_nil]; omega)
+      rw [show (g0 :: rest0).length + (10 - (g0 :: rest0).length) = 10 by omega,
+        List.nil_append] at l1
+      rw [e, l1]
+      cases tl with
+      | nil => rw [txt_nil, if_pos rfl]; simp
+      | cons g1 rest1 =>
+        obtain ⟨c1, s1, ht1, _⟩ := txt_head g1 rest1 (hbt g1 List.mem_cons_self)
+        rw [if_neg (by rw [ht1]; exact List.cons_ne_nil _ _)]
+        exact loop_end' (g1 :: rest1) _ _ _ (by simp) hbt (by rw [hH]; omega) (by omega)
+    have := parseV6_ell _ _ _ hpct hlead hloop (by rw [List.length_append, hH, hT]; omega)
+    exact this.trans (congrArg some (assemble _ _ (2 * len) (by rw [hH, hT]; omega)))
+
+theorem contains_colon_mid (s t : Bytes) : (s ++ [0x3a, 0x3a] ++ t).contains 0x3a = true := by
+  apply List.contains_iff_mem.mpr
+  simp
+
+theorem contains_colon_txt (gs : List Nat) (h : gs.length ≥ 2) : (txt gs).contains 0x3a = true := by
+  match gs, h with
+  | g :: g' :: rest, _ =>
+    rw [txt_cons2]
+    apply List.contains_iff_mem.mpr
+    simp
+
+theorem fmtV6_eq (a : Bytes) (start len : Nat) (h : bestRun (groups16 a) 0 (0, 0) = (start, len)) :
+    fmtV6 a = if len = 0 then txt (groups16 a)
+      else txt ((groups16 a).take start) ++ [0x3a, 0x3a] ++ txt ((groups16 a).drop (start + len)) := by
+  unfold fmtV6
+  simp only [h]
+  rfl
+
+theorem parseV6_fmtV6 (a : Bytes) (hl : a.length = 16) :
+    parseV6 (fmtV6 a) = some a ∧ (fmtV6 a).contains 0x3a = true ∧ V6Chars (fmtV6 a) := by
+  obtain ⟨hflat, hb, hlen⟩ := groups16_spec a (by rw [hl])
+  have h8 : (groups16 a).length = 8 := by omega
+  cases hbr : bestRun (groups16 a) 0 (0, 0) with
+  | mk start len =>
+    rw [fmtV6_eq a start len hbr]
+    by_cases h0 : len = 0
+    · rw [if_pos h0]
+      refine ⟨?_, contains_colon_txt _ (by omega), txt_chars _ hb⟩
+      rw [parseV6_plain _ h8 hb, hflat]
+    · rw [if_neg h0]
+      have hpos : len > 0 := Nat.pos_of_ne_zero h0
+      obtain ⟨hsplit, hs1, hs2⟩ := split_run _ start len (bestRun_spec _ _ _ hbr) hpos
+      have hbh : ∀ g ∈ (groups16 a).take start, g < 65536 :=
+        fun g hg => hb g (List.mem_of_mem_take hg)
+      have hbt : ∀ g ∈ (groups16 a).drop (start + len), g < 65536 :=
+        fun g hg => hb g (List.mem_of_mem_drop hg)
+      refine ⟨?_, contains_colon_mid _ _,
+        ((txt_chars _ hbh).append V6Chars.nil.cons_colon.cons_colon).append (txt_chars _ hbt)⟩
+      rw [parseV6_ellipsis _ _ len hpos (by rw [hs1]; omega) hbh hbt]
+      congr 1
+      rw [← flatMap_replicate_zero, ← List.flatMap_append, ← List.flatMap_append, ← hsplit, hflat]
+
+theorem parseIP_fmtV6 (a : Bytes) (hl : a.length = 16) :
+    parseIP (fmtV6 a) = some a ∧ (fmtV6 a).contains 0x3a = true ∧
+    (∀ c ∈ fmtV6 a, isHex c = true ∨ c = 0x3a) := by
+  obtain ⟨h1, h2, h3⟩ := parseV6_fmtV6 a hl
+  exact ⟨by rw [parseIP_eq_parseV6 h3 h2, h1], h2, h3⟩
+
+
+
+
+
+
+/-! ### ipv6hint -/
+
+/-- no address of an `ipv6hint` value is IPv4-mapped (`net.IP.To4() == nil` for each of them) -/
+def noMappedV (data : Bytes) : Bool :=
+  match chunks 16 data.length data with
+  | some as => as.all fun a => (to4 a).isNone
+  | none => true
+
+theorem isHex_ne_misc {c : UInt8} (h : isHex c = true) : c ≠ 0x7c ∧ c ≠ 0x3b ∧ c ≠ dquote := by
+  refine ⟨?_, ?_, ?_⟩ <;> (intro e; subst e; revert h; decide)
+
+theorem ipv6Loop_complete (addrs : List Bytes) (h : ∀ a ∈ addrs, a.length = 16) :
+    ipv6Loop (addrs.map fmtV6) = .ok addrs.flatten := by
+  induction addrs with
+  | nil => rfl
+  | cons v vs ih =>
+    obtain ⟨h1, h2, _⟩ := parseIP_fmtV6 v (h v List.mem_cons_self)
+    simp only [List.map_cons, ipv6Loop, h1, h2, ih (fun x hx => h x (List.mem_cons_of_mem _ hx))]
+    rfl
+
+theorem rt_ipv6 (w data : Bytes) (hm : marshalValue 6 w = .ok data) (hnm : noMappedV data = true) :
+    ∃ s, unmarshalValue 6 data = some s ∧ marshalValue 6 s = .ok data ∧ 0x3b ∉ s ∧ dquote ∉ s := by
+  obtain ⟨dv, hd, hv⟩ := decl_ipv6 w data hm
+  simp only [marshalValue, ipv6hintMarshaller] at hm
+  obtain ⟨addrs, h1, h2⟩ := ipv6Loop_ok _ _ hm
+  simp only [declValue, h1, Option.map_some] at hd
+  have hd := Option.some.inj hd
+  subst hd h2
+  simp [valid] at hv
+  have hall : ∀ a ∈ addrs, a.length = 16 := fun a ha => hv.2 a ha
+  have hne : addrs ≠ [] := hv.1
+  have hch : chunks 16 addrs.flatten.length addrs.flatten = some addrs := by
+    rw [chunks_eq_decodeAddrs]
+    exact decodeAddrs_flatten 16 (by omega) addrs hall _ (flatten_length_ge 16 (by omega) addrs hall)
+  have hstr : addrs.map ipString = addrs.map fmtV6 := by
+    apply List.map_congr_left
+    intro a ha
+    have h4 : to4 a = none := by
+      unfold noMappedV at hnm
+      rw [hch] at hnm
+      exact Option.isNone_iff_eq_none.mp (List.all_eq_true.mp hnm a ha)
+    have hl := hall a ha
+    unfold ipString
+    rw [if_neg (by omega), h4]
+  have hchars : ∀ s ∈ addrs.map fmtV6, ∀ c ∈ s, c ≠ 0x7c ∧ c ≠ 0x3b ∧ c ≠ dquote := by
+    intro s hs c hc
+    obtain ⟨a, ha, rfl⟩ := List.mem_map.mp hs
+    rcases (parseIP_fmtV6 a (hall a ha)).2.2 c hc with h | rfl
+    · exact isHex_ne_misc h
+    · decide
+  refine ⟨intercalate [0x7c] (addrs.map fmtV6), ?_, ?_, ?_, ?_⟩
+  · simp only [unmarshalValue, ipv6hintUnmarshaller, hch, Option.map_some, hstr]
+  · simp only [marshalValue, ipv6hintMarshaller]
+    rw [splitOn_intercalate 0x7c _ (by simpa using hne)]
+    · exact ipv6Loop_complete addrs hall
+    · intro s hs hm'
+      exact (hchars s hs _ hm').1 rfl
+  · intro hm'
+    rcases mem_intercalate hm' with h | ⟨s, hs, hc⟩
+    · simp at h
+    · exact (hchars s hs _ hc).2.1 rfl
+  · intro hm'
+    rcases mem_intercalate hm' with h | ⟨s, hs, hc⟩
+    · simp [dquote] at h
+    · exact (hchars s hs _ hc).2.2 rfl
+
+/-! ### one parameter -/
+
+theorem trimQuotes_subset {v : Bytes} {c : UInt8} (h : c ∈ trimQuotes v) : c ∈ v := by
+  unfold trimQuotes at h
+  have h := List.mem_reverse.mp h
+  have h := (List.dropWhile_sublist _).subset h
+  have h := List.mem_reverse.mp h
+  exact (List.dropWhile_sublist _).subset h
+
+theorem param_roundtrip {seg : Bytes} {p : Param} (hp : paramFromText seg = .ok p)
+    (hseg : 0x3b ∉ seg) (hnm : p.key = 6 → noMappedV p.value = true) :
+    ∃ s, paramToText p = some s ∧ paramFromText s = .ok p ∧ s ≠ [] ∧ 0x3b ∉ s := by
+  obtain ⟨n, v, hc, hk, hm⟩ := paramFromText_ok hp
+  obtain ⟨k, data⟩ := p
+  simp only at hk hm hnm
+  have hle := keyOfName_le hk
+  have hv : 0x3b ∉ v := by
+    intro h; apply hseg; rw [cut_mem hc]; exact List.mem_append_right _ (List.mem_cons_of_mem _ h)
+  -- the printed value
+  have hval : ∃ s', unmarshalValue k data = some s' ∧ marshalValue k s' = .ok data ∧ 0x3b ∉ s' ∧ Clean s' := by
+    match k, hle with
+    | 0, _ => obtain ⟨s, a, b, c, d⟩ := rt_mand _ _ hm; exact ⟨s, a, b, c, clean_of_not_mem d⟩
+    | 1, _ =>
+      exact ⟨trimQuotes v, rt_alpn _ _ hm, hm, fun h => hv (trimQuotes_subset h), trimQuotes_clean v⟩
+    | 2, _ =>
+      have : data = [] := by
+        simp only [marshalValue, nodefaultalpnMarshaller] at hm
+        split at hm
+        · simp at hm
+        · simp at hm; exact hm
+      subst this
+      exact ⟨[], rfl, rfl, by simp, by simp [Clean]⟩
+    | 3, _ => obtain ⟨s, a, b, c, d⟩ := rt_port _ _ hm; exact ⟨s, a, b, c, clean_of_not_mem d⟩
+    | 4, _ => obtain ⟨s, a, b, c, d⟩ := rt_ipv4 _ _ hm; exact ⟨s, a, b, c, clean_of_not_mem d⟩
+    | 5, _ => obtain ⟨s, a, b, c, d⟩ := rt_ech data; exact ⟨s, a, b, c, clean_of_not_mem d⟩
+    | 6, _ => obtain ⟨s, a, b, c, d⟩ := rt_ipv6 _ _ hm (hnm rfl); exact ⟨s, a, b, c, clean_of_not_mem d⟩
+    | k + 7, h => omega
+  obtain ⟨s', hu, hm', hs1, hs2⟩ := hval
+  obtain ⟨hn1, hn2, hn3⟩ := nameOfKey_facts k hle
+  refine ⟨nameOfKey k ++ [0x3d, dquote] ++ s' ++ [dquote], ?_, ?_, ?_, ?_⟩
+  · simp only [paramToText, hu, Option.map_some]
+  · have hshape : nameOfKey k ++ [0x3d, dquote] ++ s' ++ [dquote] =
+        nameOfKey k ++ 0x3d :: (dquote :: (s' ++ [dquote])) := by simp
+    rw [hshape]
+    unfold paramFromText
+    rw [cut_append 0x3d _ _ (fun h => (hn3 _ h).1 rfl)]
+    simp only [hn1]
+    rw [if_neg (by simp), trimQuotes_wrap hs2, hm']
+  · simp [hn2]
+  · intro h
+    simp only [List.mem_append, List.mem_cons, List.not_mem_nil, or_false] at h
+    rcases h with ((h | h) | h) | h
+    · exact (hn3 _ h).2.2.1 rfl
+    · rcases h with h | h
+      · revert h; decide
+      · revert h; decide
+    · exact hs1 h
+    · revert h; decide
+
+/-! ### the list -/
+
+theorem splitOn_no_sep (sep : UInt8) (b : Bytes) : ∀ s ∈ splitOn sep b, sep ∉ s := by
+  induction b with
+  | nil => simp [splitOn]
+  | cons c cs ih =>
+    unfold splitOn
+    by_cases hc : c = sep
+    · rw [if_pos hc]
+      intro s hs
+      rcases List.mem_cons.mp hs with rfl | hs
+      · simp
+      · exact ih s hs
+    · rw [if_neg hc]
+      cases hsp : splitOn sep cs with
+      | nil => intro s hs; simp at hs; subst hs; simp; exact fun e => hc e.symm
+      | cons x xs =>
+        rw [hsp] at ih
+        intro s hs
+        rcases List.mem_cons.mp hs with rfl | hs
+        · intro hm
+          rcases List.mem_cons.mp hm with e | hm
+          · exact hc e.symm
+          · exact ih x List.mem_cons_self hm
+        · exact ih s (List.mem_cons_of_mem _ hs)
+
+theorem parseSegs_complete {ts : List Bytes} {l : List Param} (hp : Parsed ts l) :
+    ∀ seen, (∀ s ∈ ts, s ≠ []) → (l.Pairwise fun x y => x.key ≠ y.key) → (∀ p ∈ l, p.key ∉ seen) →
+      parseSegs seen ts = .ok l := by
+  induction hp with
+  | nil => intros; rfl
+  | @cons s p ss ps h1 _ ih =>
+    intro seen hne hd hs
+    obtain ⟨hd1, hd2⟩ := List.pairwise_cons.mp hd
+    have hse : ¬ (s.isEmpty = true) := by
+      have := hne s List.mem_cons_self
+      cases s with
+      | nil => exact absurd rfl this
+      | cons _ _ => simp
+    have hsn : ¬ (seen.contains p.key = true) := by simpa using hs p List.mem_cons_self
+    unfold parseSegs
+    rw [if_neg hse]
+    simp only [h1]
+    rw [if_neg hsn, ih (p.key :: seen) (fun x hx => hne x (List.mem_cons_of_mem _ hx)) hd2]
+    intro q hq hmem
+    rcases List.mem_cons.mp hmem with e | hmem
+    · exact hd1 q hq e.symm
+    · exact hs q (List.mem_cons_of_mem _ hq) hmem
+
+theorem mandatoryCheck_perm {ps l : List Param} (hperm : l.Perm ps)
+    (hd : ps.Pairwise fun x y => x.key ≠ y.key) (h : mandatoryCheck ps = .ok ()) :
+    mandatoryCheck l = .ok () := by
+  unfold mandatoryCheck at h ⊢
+  cases hf : l.find? (fun x => x.key = 0) with
+  | none => rfl
+  | some m =>
+    have hml : m ∈ l := List.mem_of_find?_eq_some hf
+    have hm0 : m.key = 0 := by simpa using List.find?_some hf
+    have hmp : m ∈ ps := hperm.mem_iff.mp hml
+    cases hg : ps.find? (fun x => x.key = 0) with
+    | none =>
+      have := List.find?_eq_none.mp hg m hmp
+      simp [hm0] at this
+    | some m' =>
+      have hm'p : m' ∈ ps := List.mem_of_find?_eq_some hg
+      have hm'0 : m'.key = 0 := by simpa using List.find?_some hg
+      have : m' = m := pairwise_key_unique hd hm'p hmp (by rw [hm'0, hm0])
+      subst this
+      simp only [hg] at h
+      simp only
+      cases hu : u16s m'.value with
+      | none => simp [hu] at h
+      | some ks =>
+        simp only [hu] at h ⊢
+        have hany : ∀ k, (l.any fun x => x.key = k) = (ps.any fun x => x.key = k) := by
+          intro k
+          rw [Bool.eq_iff_iff, List.any_eq_true, List.any_eq_true]
+          constructor
+          · rintro ⟨x, hx, hk⟩; exact ⟨x, hperm.mem_iff.mp hx, hk⟩
+          · rintro ⟨x, hx, hk⟩; exact ⟨x, hperm.mem_iff.mpr hx, hk⟩
+        simp only [hany]
+        exact h
+
+theorem toText_parts (l : List Param)
+    (h : ∀ p ∈ l, ∃ s, paramToText p = some s ∧ paramFromText s = .ok p ∧ s ≠ [] ∧ 0x3b ∉ s) :
+    ∃ ts, mapM' paramToText l = some ts ∧ Parsed ts l ∧ ∀ s ∈ ts, s ≠ [] ∧ 0x3b ∉ s := by
+  induction l with
+  | nil => exact ⟨[], rfl, Parsed.nil, by simp⟩
+  | cons p ps ih =>
+    obtain ⟨s, h1, h2, h3, h4⟩ := h p List.mem_cons_self
+    obtain ⟨ts, g1, g2, g3⟩ := ih (fun q hq => h q (List.mem_cons_of_mem _ hq))
+    refine ⟨s :: ts, by simp [mapM', h1, g1], Parsed.cons h2 g2, ?_⟩
+    intro x hx
+    rcases List.mem_cons.mp hx with rfl | hx
+    · exact ⟨h3, h4⟩
+    · exact g3 x hx
+
+/-- no `ipv6hint` address of the list is IPv4-mapped -/
+def NoMapped (l : List Param) : Prop := ∀ p ∈ l, p.key = 6 → noMappedV p.value = true
+
+/-- Printing an accepted list and parsing the text again gives the list back. -/
+theorem text_roundtrip {t : Bytes} {l : List Param} (h : fromText t = .ok l) (hnm : NoMapped l) :
+    ∃ s, toText l = .ok s ∧ fromText s = .ok l := by
+  obtain ⟨ps, hp, hm, hl⟩ := fromText_ok h
+  have hpar : Parsed (liveSegs t) ps := parseSegs_forall2 _ _ _ hp
+  have hd := (parseSegs_keys _ _ _ hp).1
+  have hperm : l.Perm ps := hl ▸ sortBy_perm _ _
+  have hlt := fromText_keys_lt h
+  have hparts : ∀ p ∈ l, ∃ s, paramToText p = some s ∧ paramFromText s = .ok p ∧ s ≠ [] ∧ 0x3b ∉ s := by
+    intro p hpl
+    obtain ⟨seg, hseg, hpf⟩ := hpar.of_right (hperm.mem_iff.mp hpl)
+    have hseg' := (List.mem_filter.mp hseg).1
+    exact param_roundtrip hpf (splitOn_no_sep _ _ _ hseg') (hnm p hpl)
+  obtain ⟨ts, g1, g2, g3⟩ := toText_parts l hparts
+  refine ⟨intercalate [0x3b] ts, by simp only [toText, g1], ?_⟩
+  have hdl : l.Pairwise fun x y => x.key ≠ y.key := hlt.imp (fun h => Nat.ne_of_lt h)
+  have hsegs : parseSegs [] (splitOn 0x3b (intercalate [0x3b] ts)) = .ok l := by
+    cases ts with
+    | nil =>
+      cases g2
+      rfl
+    | cons x xs =>
+      rw [splitOn_intercalate 0x3b _ (by simp) (fun s hs => (g3 s hs).2)]
+      exact parseSegs_complete g2 [] (fun s hs => (g3 s hs).1) hdl (by simp)
+  unfold fromText
+  simp only [hsegs, mandatoryCheck_perm hperm hd hm]
+  rw [sortBy_of_sorted _ _ (hlt.imp (fun h => Nat.le_of_lt h))]
+
 
 end DnsVerif.Svcb
